@@ -1,3 +1,2401 @@
+/-
+C18 — helper lemmas for `Props/C18.lean`.
+Part 1: `moving_average` (prefix sums telescope; exponential by left fold).
+Part 2: CPython bisect, `my_bisect_*`, the `_remove` loop under sortedness of the id columns.
+Part 3: the keep rule of `_group_p` (counting argument).
+Part 4: runs, `_group_p`, `_global_n`, `_filter_fin`, consistency.
+Part 5: `_grouped_ys` / `raw_learners`.
+-/
 import CobaVerif.Model.C18
+import Mathlib.Tactic.Linarith
+import Mathlib.Tactic.Ring
+import Mathlib.Tactic.FieldSimp
+import Mathlib.Algebra.Order.Field.Rat
+import Mathlib.Algebra.BigOperators.Group.List.Basic
+import Mathlib.Data.List.Basic
+import Mathlib.Data.List.Range
+import Mathlib.Data.List.Nodup
+import Mathlib.Data.List.Perm.Basic
+import Mathlib.Data.List.Perm.Subperm
+import Mathlib.Data.List.Count
+
+set_option linter.unusedSimpArgs false
+
 namespace Coba.C18
+
+/-! ## Part 1: moving_average -/
+
+
+theorem sumL_eq_sum (l : List Rat) : sumL l = l.sum := by
+  induction l with
+  | nil => rfl
+  | cons x xs ih => simp [sumL, ih]
+
+def scanAt (f : Rat → Rat → Rat) (xs : List Rat) (t : Nat) : Rat :=
+  match xs.take (t + 1) with
+  | [] => 0
+  | v :: r => r.foldl f v
+
+theorem divAll_map {α} (l : List α) (g1 g2 : α → Rat) :
+    divAll (l.map g1) (l.map g2) = sequenceE (l.map (fun i => divE (g1 i) (g2 i))) := by
+  induction l with
+  | nil => simp [divAll, sequenceE]
+  | cons x xs ih =>
+    simp only [List.map_cons, divAll, divE]
+    by_cases h : g2 x = 0
+    · simp [h, sequenceE]
+    · simp only [h, if_false, sequenceE, ih, divE]
+
+theorem foldl_add (a : Rat) (l : List Rat) : l.foldl (fun a v => a + v) a = a + sumL l := by
+  induction l generalizing a with
+  | nil => simp [sumL]
+  | cons x xs ih => simp [sumL, ih]; ring
+
+theorem scanAt_add (xs : List Rat) (t : Nat) : scanAt (fun a v => a + v) xs t = sumL (xs.take (t + 1)) := by
+  unfold scanAt
+  cases h : xs.take (t + 1) with
+  | nil => simp [sumL]
+  | cons v r => simp [foldl_add, sumL]
+
+theorem sumL_append (a b : List Rat) : sumL (a ++ b) = sumL a + sumL b := by
+  simp [sumL_eq_sum]
+
+theorem sumL_replicate_zero (k : Nat) : sumL (List.replicate k 0) = 0 := by
+  simp [sumL_eq_sum]
+
+theorem sumL_replicate_one (k : Nat) : sumL (List.replicate k 1) = (k : Rat) := by
+  simp [sumL_eq_sum]
+
+theorem sumL_take_succ (xs : List Rat) (k : Nat) (h : k < xs.length) :
+    sumL (xs.take (k + 1)) = sumL (xs.take k) + xs[k] := by
+  simp only [sumL_eq_sum]
+  exact List.sum_take_succ xs k h
+
+theorem length_subShift (s : Nat) (xs : List Rat) : (subShift s xs).length = xs.length := by
+  simp [subShift]
+
+theorem getElem_subShift (s : Nat) (xs : List Rat) (k : Nat) (h : k < xs.length) :
+    (subShift s xs)[k]'(by simpa [length_subShift] using h) = xs[k] - (if h' : k < s then 0 else xs[k - s]'(by omega)) := by
+  simp only [subShift, List.getElem_zipWith]
+  congr 1
+  by_cases h' : k < s
+  · simp [h', List.getElem_append_left]
+  · have hs : s ≤ k := by omega
+    rw [List.getElem_append_right (by simpa using hs)]
+    simp [h']
+
+/-- prefix sums of the shifted difference telescope -/
+theorem sumL_take_subShift (s : Nat) (xs : List Rat) (k : Nat) (h : k ≤ xs.length) :
+    sumL ((subShift s xs).take k) = sumL (xs.take k) - sumL (xs.take (k - s)) := by
+  induction k with
+  | zero => simp [sumL]
+  | succ k ih =>
+    have hk : k < xs.length := h
+    rw [sumL_take_succ _ k (by simpa [length_subShift] using hk), ih (by omega), getElem_subShift s xs k hk,
+      sumL_take_succ xs k hk]
+    by_cases h' : k < s
+    · have e1 : k + 1 - s = 0 := by omega
+      have e2 : k - s = 0 := by omega
+      simp [h', e1, e2, sumL]
+    · have e1 : k + 1 - s = (k - s) + 1 := by omega
+      rw [e1, sumL_take_succ xs (k - s) (by omega)]
+      simp [h']
+      ring
+
+theorem sumL_window_some (s i : Nat) (xs : List Rat) :
+    sumL (window (some s) i xs) = sumL (xs.take (i + 1)) - sumL (xs.take (i + 1 - s)) := by
+  simp only [window]
+  have := List.take_append_drop (i + 1 - s) (xs.take (i + 1))
+  have h2 : sumL (xs.take (i + 1)) = sumL ((xs.take (i + 1)).take (i + 1 - s)) + sumL ((xs.take (i + 1)).drop (i + 1 - s)) := by
+    rw [← sumL_append, this]
+  rw [h2, List.take_take]
+  have : min (i + 1 - s) (i + 1) = i + 1 - s := by omega
+  rw [this]; ring
+
+
+theorem accFrom_eq (f : Rat → Rat → Rat) (a : Rat) (vs : List Rat) :
+    accFrom f a vs = (List.range vs.length).map (fun t => (vs.take (t + 1)).foldl f a) := by
+  induction vs generalizing a with
+  | nil => simp [accFrom]
+  | cons v vs ih =>
+    simp only [accFrom, List.length_cons, List.range_succ_eq_map, List.map_cons, List.map_map]
+    rw [ih]
+    simp [Function.comp_def]
+
+theorem accumulateWith_eq (f : Rat → Rat → Rat) (xs : List Rat) :
+    accumulateWith f xs = (List.range xs.length).map (scanAt f xs) := by
+  cases xs with
+  | nil => simp [accumulateWith]
+  | cons v vs =>
+    simp only [accumulateWith, accFrom_eq, List.length_cons, List.range_succ_eq_map, List.map_cons, List.map_map]
+    simp [scanAt, Function.comp_def]
+
+theorem sequenceE_congr {α} (l : List α) (f g : α → Except Err Rat) (h : ∀ i ∈ l, f i = g i) :
+    sequenceE (l.map f) = sequenceE (l.map g) := by
+  rw [List.map_congr_left h]
+
+theorem divAll_accumulate (A B : List Rat) (h : A.length = B.length) :
+    divAll (accumulate A) (accumulate B) =
+      sequenceE ((List.range A.length).map (fun i => divE (sumL (A.take (i + 1))) (sumL (B.take (i + 1))))) := by
+  unfold accumulate
+  rw [accumulateWith_eq, accumulateWith_eq, ← h, divAll_map]
+  apply sequenceE_congr
+  intro i _
+  rw [scanAt_add, scanAt_add]
+
+theorem divAll_sliding (s : Nat) (A B : List Rat) (h : A.length = B.length) :
+    divAll (accumulate (subShift s A)) (accumulate (subShift s B)) =
+      sequenceE ((List.range A.length).map (fun i => divE (sumL (window (some s) i A)) (sumL (window (some s) i B)))) := by
+  rw [divAll_accumulate _ _ (by simp [length_subShift, h]), length_subShift]
+  apply sequenceE_congr
+  intro i hi
+  have hi : i < A.length := List.mem_range.mp hi
+  rw [sumL_take_subShift s A (i + 1) (by omega), sumL_take_subShift s B (i + 1) (by omega),
+    sumL_window_some, sumL_window_some]
+
+theorem window_one (i : Nat) (xs : List Rat) (h : i < xs.length) : window (some 1) i xs = [xs[i]] := by
+  simp only [window, Nat.add_sub_cancel]
+  rw [List.drop_take]
+  simp only [Nat.add_sub_cancel_left]
+  rw [List.drop_eq_getElem_cons h, List.take_succ_cons, List.take_zero]
+
+theorem map_getD_range (vs : List Rat) : (List.range vs.length).map (fun i => vs.getD i 0) = vs := by
+  apply List.ext_getElem (by simp)
+  intro i h1 h2
+  simp at h1
+  simp [h1]
+
+theorem sequenceE_ok {α} (l : List α) (f : α → Except Err Rat) (g : α → Rat) (h : ∀ i ∈ l, f i = .ok (g i)) :
+    sequenceE (l.map f) = .ok (l.map g) := by
+  induction l with
+  | nil => simp [sequenceE]
+  | cons x xs ih =>
+    simp only [List.map_cons]
+    rw [h x (by simp)]
+    simp only [sequenceE]
+    rw [ih (fun i hi => h i (by simp [hi]))]
+
+theorem sequenceE_not_ok {α} (l : List α) (f : α → Except Err Rat) (i : α) (hi : i ∈ l) (h : ∀ y, f i ≠ .ok y) :
+    ∀ out, sequenceE (l.map f) ≠ .ok out := by
+  induction l with
+  | nil => simp at hi
+  | cons x xs ih =>
+    intro out
+    simp only [List.map_cons]
+    cases hx : f x with
+    | error e => simp [sequenceE]
+    | ok y =>
+      simp only [sequenceE]
+      rcases List.mem_cons.mp hi with rfl | hi'
+      · exact absurd hx (h y)
+      · cases hs : sequenceE (xs.map f) with
+        | error e => simp
+        | ok r => exact absurd hs (ih hi' r)
+
+theorem window_ge (s i : Nat) (xs : List Rat) (h : i < s) : window (some s) i xs = window none i xs := by
+  have : i + 1 - s = 0 := by omega
+  simp [window, this]
+
+theorem mulAll_ones (vs : List Rat) : mulAll vs (List.replicate vs.length 1) = vs := by
+  induction vs with
+  | nil => simp [mulAll]
+  | cons v vs ih =>
+    simp only [mulAll, List.length_cons, List.replicate_succ, List.zipWith_cons_cons, mul_one] at ih ⊢
+    rw [ih]
+
+theorem length_mulAll (vs ws : List Rat) (h : ws.length = vs.length) : (mulAll vs ws).length = vs.length := by
+  simp [mulAll, h]
+
+theorem sumL_take_ones (n i : Nat) (h : i < n) : sumL ((List.replicate n (1 : Rat)).take (i + 1)) = ((i + 1 : Nat) : Rat) := by
+  rw [List.take_replicate, sumL_replicate_one]
+  congr 1
+  omega
+
+theorem wmeanAt_ones (vs : List Rat) (sp : Option Nat) :
+    wmeanAt vs (List.replicate vs.length 1) sp =
+      fun i => divE (sumL (window sp i vs)) (sumL (window sp i (List.replicate vs.length 1))) := by
+  funext i
+  simp only [wmeanAt, mulAll_ones]
+
+theorem wmeanAt_fun (vs ws : List Rat) (sp : Option Nat) :
+    wmeanAt vs ws sp = fun i => divE (sumL (window sp i (mulAll vs ws))) (sumL (window sp i ws)) := by
+  funext i; rfl
+
+/-- progressive (cumulative) weighted mean: the implementation equals the textbook definition -/
+theorem progressive_eq (A B : List Rat) (h : A.length = B.length) (span : Option Nat)
+    (hs : ∀ s, span = some s → A.length ≤ s) :
+    divAll (accumulate A) (accumulate B) =
+      sequenceE ((List.range A.length).map (fun i => divE (sumL (window span i A)) (sumL (window span i B)))) := by
+  rw [divAll_accumulate A B h]
+  apply sequenceE_congr
+  intro i hi
+  have hi : i < A.length := List.mem_range.mp hi
+  cases span with
+  | none => simp [window]
+  | some s =>
+    have := hs s rfl
+    rw [window_ge s i A (by omega), window_ge s i B (by omega)]
+    simp [window]
+
+theorem movingAverage_none_eq (vs : List Rat) (span : Option Nat) :
+    movingAverage vs span .none = movingAverageS vs span .none := by
+  have hlen : (List.replicate vs.length (1 : Rat)).length = vs.length := by simp
+  have hcount : countFrom1 vs.length = (List.range vs.length).map (fun i => sumL ((List.replicate vs.length (1:Rat)).take (i+1))) := by
+    unfold countFrom1
+    apply List.map_congr_left
+    intro i hi
+    rw [sumL_take_ones _ _ (List.mem_range.mp hi)]
+  have hprog : ∀ sp : Option Nat, (∀ s, sp = some s → vs.length ≤ s) →
+      divAll (accumulate vs) (countFrom1 vs.length) =
+        sequenceE ((List.range vs.length).map (wmeanAt vs (List.replicate vs.length 1) sp)) := by
+    intro sp hsp
+    have := progressive_eq vs (List.replicate vs.length 1) hlen.symm sp hsp
+    rw [divAll_accumulate _ _ hlen.symm] at this
+    unfold accumulate
+    rw [accumulateWith_eq, hcount, divAll_map]
+    rw [wmeanAt_ones, ← this]
+    apply sequenceE_congr
+    intro i _
+    rw [scanAt_add]
+  unfold movingAverage movingAverageS
+  simp only
+  by_cases h1 : span = some 1
+  · subst h1
+    rw [if_pos rfl]
+    -- every window of width 1 is the value itself
+    rw [sequenceE_ok _ _ (fun i => vs.getD i 0), map_getD_range]
+    intro i hi
+    have hi : i < vs.length := List.mem_range.mp hi
+    simp only [wmeanAt, mulAll_ones]
+    rw [window_one i vs hi, window_one i _ (by simpa using hi)]
+    simp [sumL, divE, hi]
+  · rw [if_neg h1]
+    cases span with
+    | none => exact hprog none (by simp)
+    | some s =>
+      simp only
+      by_cases hs : s ≥ vs.length
+      · rw [if_pos hs]
+        exact hprog (some s) (by intro s' h; cases h; exact hs)
+      · rw [if_neg hs, divAll_sliding s vs _ hlen.symm, wmeanAt_ones]
+
+
+theorem getElem_mulAll (vs ws : List Rat) (i : Nat) (h1 : i < vs.length) (h2 : i < ws.length) :
+    (mulAll vs ws)[i]'(by simp [mulAll]; omega) = vs[i] * ws[i] := by
+  simp [mulAll]
+
+theorem movingAverage_ws_eq (vs wl : List Rat) (span : Option Nat) (h1 : span ≠ some 1) :
+    movingAverage vs span (.ws wl) = movingAverageS vs span (.ws wl) := by
+  unfold movingAverage movingAverageS
+  simp only
+  by_cases hl : wl.length ≠ vs.length
+  · rw [if_pos hl, if_pos hl]
+  · rw [if_neg hl, if_neg hl, if_neg h1]
+    have hl : wl.length = vs.length := by omega
+    have hA : (mulAll vs wl).length = wl.length := by rw [length_mulAll vs wl hl, hl]
+    have hAv : (mulAll vs wl).length = vs.length := length_mulAll vs wl hl
+    by_cases he : wl.isEmpty = true
+    · rw [if_pos he]
+      have : wl = [] := by simpa using he
+      subst this
+      have : vs = [] := by simpa using hl.symm
+      subst this
+      simp [accumulate, accumulateWith, countFrom1, divAll, sequenceE]
+    · rw [if_neg he, wmeanAt_fun]
+      cases span with
+      | none =>
+        simp only
+        rw [progressive_eq _ _ hA none (by simp), hAv]
+      | some s =>
+        simp only
+        by_cases hs : s ≥ vs.length
+        · rw [if_pos hs, progressive_eq _ _ hA (some s) (by intro s' h; cases h; omega), hAv]
+        · rw [if_neg hs, divAll_sliding s _ _ hA, hAv]
+
+theorem movingAverage_ws_span1 (vs wl out : List Rat)
+    (h : movingAverageS vs (some 1) (.ws wl) = .ok out) : movingAverage vs (some 1) (.ws wl) = .ok out := by
+  unfold movingAverage
+  unfold movingAverageS at h
+  simp only at h ⊢
+  by_cases hl : wl.length ≠ vs.length
+  · rw [if_pos hl] at h; cases h
+  · rw [if_neg hl] at h
+    rw [if_neg hl, if_pos trivial]
+    have hl : wl.length = vs.length := by omega
+    have hval : ∀ i, (hi : i < vs.length) → wmeanAt vs wl (some 1) i = divE (vs[i] * wl[i]) (wl[i]) := by
+      intro i hi
+      simp only [wmeanAt]
+      rw [window_one i _ (by rw [length_mulAll vs wl hl]; exact hi), window_one i wl (by omega),
+        getElem_mulAll vs wl i hi (by omega)]
+      simp [sumL]
+    by_cases hz : ∃ i, ∃ hi : i < vs.length, wl[i]'(by omega) = 0
+    · obtain ⟨i, hi, hz⟩ := hz
+      exfalso
+      refine sequenceE_not_ok _ _ i (List.mem_range.mpr hi) ?_ out h
+      intro y
+      rw [hval i hi, hz]
+      simp [divE]
+    · have hok : sequenceE ((List.range vs.length).map (wmeanAt vs wl (some 1))) = .ok ((List.range vs.length).map (fun i => vs.getD i 0)) := by
+        apply sequenceE_ok
+        intro i hi
+        have hi : i < vs.length := List.mem_range.mp hi
+        rw [hval i hi]
+        have hne : wl[i]'(by omega) ≠ 0 := fun hc => hz ⟨i, hi, hc⟩
+        simp [divE, hne, hi]
+      rw [hok, map_getD_range] at h
+      exact h
+
+/-! exponential -/
+
+theorem geoSum_nil (b : Rat) : geoSum b [] = 0 := by simp [geoSum, mulAll, sumL]
+
+theorem geoSum_append_single (b : Rat) (ys : List Rat) (x : Rat) :
+    geoSum b (ys ++ [x]) = geoSum b ys + rpow b ys.length * x := by
+  simp only [geoSum, mulAll, List.length_append, List.length_singleton, List.range_succ, List.map_append,
+    List.map_singleton]
+  rw [List.zipWith_append (by simp)]
+  simp [sumL_append, sumL]
+
+theorem foldl_exp (b a : Rat) (l : List Rat) :
+    l.foldl (fun a v => v + b * a) a = geoSum b l.reverse + rpow b l.length * a := by
+  induction l generalizing a with
+  | nil => simp [geoSum_nil, rpow]
+  | cons x xs ih =>
+    simp only [List.foldl_cons, List.reverse_cons, List.length_cons]
+    rw [ih, geoSum_append_single, List.length_reverse]
+    simp only [rpow]
+    ring
+
+theorem scanAt_exp (b : Rat) (xs : List Rat) (t : Nat) :
+    scanAt (fun a v => v + b * a) xs t = geoSum b (xs.take (t + 1)).reverse := by
+  unfold scanAt
+  cases h : xs.take (t + 1) with
+  | nil => simp [geoSum_nil]
+  | cons v r =>
+    simp only [List.reverse_cons]
+    rw [foldl_exp, geoSum_append_single, List.length_reverse]
+
+theorem movingAverage_exp_eq (vs : List Rat) (span : Option Nat) :
+    movingAverage vs span .exp = movingAverageS vs span .exp := by
+  unfold movingAverage movingAverageS
+  cases span with
+  | none => rfl
+  | some s =>
+    simp only
+    rw [accumulateWith_eq, accumulateWith_eq, List.length_replicate, divAll_map]
+    apply sequenceE_congr
+    intro t ht
+    have ht : t < vs.length := List.mem_range.mp ht
+    rw [scanAt_exp, scanAt_exp, List.take_replicate, List.reverse_replicate]
+    have : min (t + 1) vs.length = t + 1 := by omega
+    rw [this]
+    rfl
+
+
+/-! ## Part 2: bisect and `_remove` -/
+
+
+/-- the column is non-decreasing on the positions `lo ≤ i < hi` -/
+def SegSorted (c : List Nat) (lo hi : Nat) : Prop :=
+  ∀ i j x y, lo ≤ i → i ≤ j → j < hi → c[i]? = some x → c[j]? = some y → x ≤ y
+
+theorem SegSorted.sub {c : List Nat} {lo hi lo' hi' : Nat} (h : SegSorted c lo hi) (h1 : lo ≤ lo') (h2 : hi' ≤ hi) :
+    SegSorted c lo' hi' := by
+  intro i j x y hi1 hij hj hx hy
+  exact h i j x y (by omega) hij (by omega) hx hy
+
+theorem bisectLeftAux_spec (c : List Nat) (a : Nat) : ∀ (fuel lo hi : Nat), lo ≤ hi → hi ≤ c.length → hi - lo ≤ fuel →
+    SegSorted c lo hi →
+    ∃ r, bisectLeftAux c a fuel lo hi = .ok r ∧ lo ≤ r ∧ r ≤ hi ∧
+      (∀ i x, lo ≤ i → i < r → c[i]? = some x → x < a) ∧ (∀ i x, r ≤ i → i < hi → c[i]? = some x → a ≤ x) := by
+  intro fuel
+  induction fuel with
+  | zero =>
+    intro lo hi h1 h2 h3 _
+    refine ⟨lo, rfl, le_refl _, h1, ?_, ?_⟩
+    · intro i x h4 h5; omega
+    · intro i x h4 h5; omega
+  | succ f ih =>
+    intro lo hi h1 h2 h3 hs
+    unfold bisectLeftAux
+    by_cases hlt : lo < hi
+    · rw [if_pos hlt]
+      have hm1 : lo ≤ (lo + hi) / 2 := by omega
+      have hm2 : (lo + hi) / 2 < hi := by omega
+      have hm3 : (lo + hi) / 2 < c.length := by omega
+      rw [List.getElem?_eq_getElem hm3]
+      simp only
+      by_cases hx : c[(lo + hi) / 2] < a
+      · rw [if_pos hx]
+        obtain ⟨r, hr, hr1, hr2, hr3, hr4⟩ := ih ((lo + hi) / 2 + 1) hi (by omega) h2 (by omega) (hs.sub (by omega) (le_refl _))
+        refine ⟨r, hr, by omega, hr2, ?_, hr4⟩
+        intro i x hi1 hi2 hix
+        by_cases hc : (lo + hi) / 2 + 1 ≤ i
+        · exact hr3 i x hc hi2 hix
+        · have := hs i ((lo + hi) / 2) x _ hi1 (by omega) hm2 hix (List.getElem?_eq_getElem hm3)
+          omega
+      · rw [if_neg hx]
+        obtain ⟨r, hr, hr1, hr2, hr3, hr4⟩ := ih lo ((lo + hi) / 2) hm1 (by omega) (by omega) (hs.sub (le_refl _) (by omega))
+        refine ⟨r, hr, hr1, by omega, hr3, ?_⟩
+        intro i x hi1 hi2 hix
+        by_cases hc : i < (lo + hi) / 2
+        · exact hr4 i x hi1 hc hix
+        · have := hs ((lo + hi) / 2) i _ x hm1 (by omega) hi2 (List.getElem?_eq_getElem hm3) hix
+          omega
+    · rw [if_neg hlt]
+      refine ⟨lo, rfl, le_refl _, h1, ?_, ?_⟩
+      · intro i x h4 h5; omega
+      · intro i x h4 h5; omega
+
+theorem bisectRightAux_spec (c : List Nat) (a : Nat) : ∀ (fuel lo hi : Nat), lo ≤ hi → hi ≤ c.length → hi - lo ≤ fuel →
+    SegSorted c lo hi →
+    ∃ r, bisectRightAux c a fuel lo hi = .ok r ∧ lo ≤ r ∧ r ≤ hi ∧
+      (∀ i x, lo ≤ i → i < r → c[i]? = some x → x ≤ a) ∧ (∀ i x, r ≤ i → i < hi → c[i]? = some x → a < x) := by
+  intro fuel
+  induction fuel with
+  | zero =>
+    intro lo hi h1 h2 h3 _
+    refine ⟨lo, rfl, le_refl _, h1, ?_, ?_⟩
+    · intro i x h4 h5; omega
+    · intro i x h4 h5; omega
+  | succ f ih =>
+    intro lo hi h1 h2 h3 hs
+    unfold bisectRightAux
+    by_cases hlt : lo < hi
+    · rw [if_pos hlt]
+      have hm1 : lo ≤ (lo + hi) / 2 := by omega
+      have hm2 : (lo + hi) / 2 < hi := by omega
+      have hm3 : (lo + hi) / 2 < c.length := by omega
+      rw [List.getElem?_eq_getElem hm3]
+      simp only
+      by_cases hx : a < c[(lo + hi) / 2]
+      · rw [if_pos hx]
+        obtain ⟨r, hr, hr1, hr2, hr3, hr4⟩ := ih lo ((lo + hi) / 2) hm1 (by omega) (by omega) (hs.sub (le_refl _) (by omega))
+        refine ⟨r, hr, hr1, by omega, hr3, ?_⟩
+        intro i x hi1 hi2 hix
+        by_cases hc : i < (lo + hi) / 2
+        · exact hr4 i x hi1 hc hix
+        · have := hs ((lo + hi) / 2) i _ x hm1 (by omega) hi2 (List.getElem?_eq_getElem hm3) hix
+          omega
+      · rw [if_neg hx]
+        obtain ⟨r, hr, hr1, hr2, hr3, hr4⟩ := ih ((lo + hi) / 2 + 1) hi (by omega) h2 (by omega) (hs.sub (by omega) (le_refl _))
+        refine ⟨r, hr, by omega, hr2, ?_, hr4⟩
+        intro i x hi1 hi2 hix
+        by_cases hc : (lo + hi) / 2 + 1 ≤ i
+        · exact hr3 i x hc hi2 hix
+        · have := hs i ((lo + hi) / 2) x _ hi1 (by omega) hm2 hix (List.getElem?_eq_getElem hm3)
+          omega
+    · rw [if_neg hlt]
+      refine ⟨lo, rfl, le_refl _, h1, ?_, ?_⟩
+      · intro i x h4 h5; omega
+      · intro i x h4 h5; omega
+
+/-- `my_bisect_left` on a non-empty sorted segment: the partition point of `< a` / `≥ a` -/
+theorem myBisectLeft_spec (c : List Nat) (a l h : Nat) (h1 : l < h) (h2 : h ≤ c.length) (hs : SegSorted c l h) :
+    ∃ r, myBisectLeft c a l h = .ok r ∧ l ≤ r ∧ r ≤ h ∧
+      (∀ i x, l ≤ i → i < r → c[i]? = some x → x < a) ∧ (∀ i x, r ≤ i → i < h → c[i]? = some x → a ≤ x) := by
+  unfold myBisectLeft
+  have hl : l < c.length := by omega
+  rw [List.getElem?_eq_getElem hl]
+  simp only
+  by_cases hx : c[l] = a
+  · rw [if_pos hx]
+    refine ⟨l, rfl, le_refl _, by omega, ?_, ?_⟩
+    · intro i x h4 h5; omega
+    · intro i x h4 h5 hix
+      have := hs l i _ x (le_refl _) h4 h5 (List.getElem?_eq_getElem hl) hix
+      omega
+  · rw [if_neg hx]
+    exact bisectLeftAux_spec c a (h - l) l h (by omega) h2 (le_refl _) hs
+
+theorem myBisectRight_spec (c : List Nat) (a l h : Nat) (h1 : l < h) (h2 : h ≤ c.length) (hs : SegSorted c l h) :
+    ∃ r, myBisectRight c a l h = .ok r ∧ l ≤ r ∧ r ≤ h ∧
+      (∀ i x, l ≤ i → i < r → c[i]? = some x → x ≤ a) ∧ (∀ i x, r ≤ i → i < h → c[i]? = some x → a < x) := by
+  unfold myBisectRight
+  have h0 : ¬ h = 0 := by omega
+  rw [if_neg h0]
+  have hl : h - 1 < c.length := by omega
+  rw [List.getElem?_eq_getElem hl]
+  simp only
+  by_cases hx : c[h - 1] = a
+  · rw [if_pos hx]
+    refine ⟨h, rfl, by omega, le_refl _, ?_, ?_⟩
+    · intro i x h4 h5 hix
+      have := hs i (h - 1) x _ h4 (by omega) (by omega) hix (List.getElem?_eq_getElem hl)
+      omega
+    · intro i x h4 h5; omega
+  · rw [if_neg hx]
+    exact bisectRightAux_spec c a (h - l) l h (by omega) h2 (le_refl _) hs
+
+
+theorem tle_iff (a b : Triple) : tle a b = true ↔
+    a.1 < b.1 ∨ (a.1 = b.1 ∧ (a.2.1 < b.2.1 ∨ (a.2.1 = b.2.1 ∧ a.2.2 ≤ b.2.2))) := by
+  obtain ⟨a1, a2, a3⟩ := a
+  obtain ⟨b1, b2, b3⟩ := b
+  simp only [tle, tlt, Bool.not_eq_true', Bool.or_eq_false_iff, Bool.and_eq_false_iff, decide_eq_false_iff_not,
+    beq_eq_false_iff_ne]
+  omega
+
+theorem tlt_iff (a b : Triple) : tlt a b = true ↔
+    a.1 < b.1 ∨ (a.1 = b.1 ∧ (a.2.1 < b.2.1 ∨ (a.2.1 = b.2.1 ∧ a.2.2 < b.2.2))) := by
+  obtain ⟨a1, a2, a3⟩ := a
+  obtain ⟨b1, b2, b3⟩ := b
+  simp only [tlt, Bool.or_eq_true, Bool.and_eq_true, decide_eq_true_eq, beq_iff_eq]
+
+/-- the list of id triples is sorted lexicographically (non-strictly) -/
+def SortedT (ts : List Triple) : Prop :=
+  ∀ (i j : Nat) (a b : Triple), i ≤ j → ts[i]? = some a → ts[j]? = some b → tle a b = true
+
+theorem col_get {ts : List Triple} (f : Triple → Nat) {i : Nat} {t : Triple} (h : ts[i]? = some t) :
+    (ts.map f)[i]? = some (f t) := by
+  simp [List.getElem?_map, h]
+
+theorem col_get_inv {ts : List Triple} (f : Triple → Nat) {i : Nat} {x : Nat} (h : (ts.map f)[i]? = some x) :
+    ∃ t, ts[i]? = some t ∧ f t = x := by
+  simpa [List.getElem?_map] using h
+
+theorem removeLoop_step (ts : List Triple) (hsort : SortedT ts) (cut e l v : Nat) (ids : List Triple)
+    (loc : Nat) (sel : List Nat) (k : Nat) (hk1 : loc ≤ k) (hk : ts[k]? = some (e, l, v)) :
+    ∃ lo hi, loc ≤ lo ∧ lo < hi ∧ hi ≤ ts.length ∧
+      (∀ i t, loc ≤ i → i < lo → ts[i]? = some t → tlt t (e, l, v) = true) ∧
+      (∀ i t, lo ≤ i → i < hi → ts[i]? = some t → t = (e, l, v)) ∧
+      (∀ i t, hi ≤ i → ts[i]? = some t → tlt (e, l, v) t = true) ∧
+      removeLoop (ts.map (·.1)) (ts.map (·.2.1)) (ts.map (·.2.2)) ts.length cut ((e, l, v) :: ids) loc sel =
+        removeLoop (ts.map (·.1)) (ts.map (·.2.1)) (ts.map (·.2.2)) ts.length cut ids hi
+          (sel ++ List.range' loc (lo + (if hi - lo > cut then cut else 0) - loc)) := by
+  have hkn : k < ts.length := by
+    by_contra hc
+    rw [List.getElem?_eq_none (by omega)] at hk
+    cases hk
+  have getT : ∀ i, i < ts.length → ∃ t, ts[i]? = some t := fun i hi => ⟨ts[i], List.getElem?_eq_getElem hi⟩
+  -- level 1
+  have hsE : SegSorted (ts.map (·.1)) loc ts.length := by
+    intro i j x y _ hij _ hx hy
+    obtain ⟨a, ha, rfl⟩ := col_get_inv _ hx
+    obtain ⟨b, hb, rfl⟩ := col_get_inv _ hy
+    have := (tle_iff a b).mp (hsort i j a b hij ha hb)
+    omega
+  obtain ⟨lo1, e1, a1, a2, a3, a4⟩ := myBisectLeft_spec (ts.map (·.1)) e loc ts.length (by omega) (by simp) hsE
+  obtain ⟨hi1, e2, b1, b2, b3, b4⟩ := myBisectRight_spec (ts.map (·.1)) e loc ts.length (by omega) (by simp) hsE
+  have k1 : lo1 ≤ k := by
+    by_contra hc
+    have := a3 k e hk1 (by omega) (col_get (·.1) hk)
+    omega
+  have k2 : k < hi1 := by
+    by_contra hc
+    have := b4 k e (by omega) hkn (col_get (·.1) hk)
+    omega
+  have eqE : ∀ i t, lo1 ≤ i → i < hi1 → ts[i]? = some t → t.1 = e := by
+    intro i t h1 h2 ht
+    have := a4 i t.1 h1 (by omega) (col_get (·.1) ht)
+    have := b3 i t.1 (by omega) h2 (col_get (·.1) ht)
+    omega
+  -- level 2
+  have hsL : SegSorted (ts.map (·.2.1)) lo1 hi1 := by
+    intro i j x y h1 hij h2 hx hy
+    obtain ⟨a, ha, rfl⟩ := col_get_inv _ hx
+    obtain ⟨b, hb, rfl⟩ := col_get_inv _ hy
+    have := (tle_iff a b).mp (hsort i j a b hij ha hb)
+    have := eqE i a h1 (by omega) ha
+    have := eqE j b (by omega) h2 hb
+    omega
+  obtain ⟨lo2, e3, c1, c2, c3, c4⟩ := myBisectLeft_spec (ts.map (·.2.1)) l lo1 hi1 (by omega) (by simp; omega) hsL
+  obtain ⟨hi2, e4, d1, d2, d3, d4⟩ := myBisectRight_spec (ts.map (·.2.1)) l lo1 hi1 (by omega) (by simp; omega) hsL
+  have k3 : lo2 ≤ k := by
+    by_contra hc
+    have := c3 k l k1 (by omega) (col_get (·.2.1) hk)
+    omega
+  have k4 : k < hi2 := by
+    by_contra hc
+    have := d4 k l (by omega) k2 (col_get (·.2.1) hk)
+    omega
+  have eqL : ∀ i t, lo2 ≤ i → i < hi2 → ts[i]? = some t → t.2.1 = l := by
+    intro i t h1 h2 ht
+    have := c4 i t.2.1 h1 (by omega) (col_get (·.2.1) ht)
+    have := d3 i t.2.1 (by omega) h2 (col_get (·.2.1) ht)
+    omega
+  -- level 3
+  have hsV : SegSorted (ts.map (·.2.2)) lo2 hi2 := by
+    intro i j x y h1 hij h2 hx hy
+    obtain ⟨a, ha, rfl⟩ := col_get_inv _ hx
+    obtain ⟨b, hb, rfl⟩ := col_get_inv _ hy
+    have := (tle_iff a b).mp (hsort i j a b hij ha hb)
+    have := eqE i a (by omega) (by omega) ha
+    have := eqE j b (by omega) (by omega) hb
+    have := eqL i a h1 (by omega) ha
+    have := eqL j b (by omega) h2 hb
+    omega
+  obtain ⟨lo3, e5, f1, f2, f3, f4⟩ := myBisectLeft_spec (ts.map (·.2.2)) v lo2 hi2 (by omega) (by simp; omega) hsV
+  obtain ⟨hi3, e6, g1, g2, g3, g4⟩ := myBisectRight_spec (ts.map (·.2.2)) v lo2 hi2 (by omega) (by simp; omega) hsV
+  have k5 : lo3 ≤ k := by
+    by_contra hc
+    have := f3 k v k3 (by omega) (col_get (·.2.2) hk)
+    omega
+  have k6 : k < hi3 := by
+    by_contra hc
+    have := g4 k v (by omega) k4 (col_get (·.2.2) hk)
+    omega
+  refine ⟨lo3, hi3, by omega, by omega, by omega, ?_, ?_, ?_, ?_⟩
+  · intro i t h1 h2 ht
+    rw [tlt_iff]
+    by_cases q1 : i < lo1
+    · have := a3 i t.1 h1 q1 (col_get (·.1) ht)
+      left; exact this
+    · have hE := eqE i t (by omega) (by omega) ht
+      by_cases q2 : i < lo2
+      · have := c3 i t.2.1 (by omega) q2 (col_get (·.2.1) ht)
+        right; exact ⟨hE, Or.inl this⟩
+      · have hL := eqL i t (by omega) (by omega) ht
+        have := f3 i t.2.2 (by omega) h2 (col_get (·.2.2) ht)
+        right; exact ⟨hE, Or.inr ⟨hL, this⟩⟩
+  · intro i t h1 h2 ht
+    have hE := eqE i t (by omega) (by omega) ht
+    have hL := eqL i t (by omega) (by omega) ht
+    have := f4 i t.2.2 h1 (by omega) (col_get (·.2.2) ht)
+    have := g3 i t.2.2 (by omega) h2 (col_get (·.2.2) ht)
+    obtain ⟨t1, t2, t3⟩ := t
+    simp only at *
+    subst hE hL
+    congr 2
+    omega
+  · intro i t h1 ht
+    have hin : i < ts.length := by
+      by_contra hc
+      rw [List.getElem?_eq_none (by omega)] at ht
+      cases ht
+    rw [tlt_iff]
+    by_cases q1 : hi1 ≤ i
+    · have := b4 i t.1 q1 hin (col_get (·.1) ht)
+      left; exact this
+    · have hE := eqE i t (by omega) (by omega) ht
+      by_cases q2 : hi2 ≤ i
+      · have := d4 i t.2.1 q2 (by omega) (col_get (·.2.1) ht)
+        right; exact ⟨hE.symm, Or.inl this⟩
+      · have hL := eqL i t (by omega) (by omega) ht
+        have := g4 i t.2.2 h1 (by omega) (col_get (·.2.2) ht)
+        right; exact ⟨hE.symm, Or.inr ⟨hL.symm, this⟩⟩
+  · rw [removeLoop, e1, e2]
+    simp only
+    rw [if_neg (by omega), e3, e4]
+    simp only
+    rw [if_neg (by omega), e5, e6]
+    simp only
+    rw [if_neg (by omega)]
+
+
+theorem range'_split (a b c : Nat) (h1 : a ≤ b) (h2 : b ≤ c) :
+    List.range' a (c - a) = List.range' a (b - a) ++ List.range' b (c - b) := by
+  have : c - a = (b - a) + (c - b) := by omega
+  rw [this, ← List.range'_append_1]
+  congr 2
+  omega
+
+/-- row number `i` survives `_remove(ids)`: its id triple is not among `ids` -/
+def keepIdx (ts ids : List Triple) (i : Nat) : Bool :=
+  (ts[i]?).any (fun t => !(ids.contains t))
+
+theorem block_count_le (ts : List Triple) (t : Triple) (lo hi : Nat) (h1 : lo ≤ hi) (h2 : hi ≤ ts.length)
+    (h : ∀ i t', lo ≤ i → i < hi → ts[i]? = some t' → t' = t) : hi - lo ≤ ts.count t := by
+  have hsub : ((ts.drop lo).take (hi - lo)).Sublist ts :=
+    (List.take_sublist _ _).trans (List.drop_sublist _ _)
+  have hlen : ((ts.drop lo).take (hi - lo)).length = hi - lo := by
+    simp; omega
+  have hall : ∀ b ∈ (ts.drop lo).take (hi - lo), t = b := by
+    intro b hb
+    obtain ⟨j, hj, rfl⟩ := List.getElem_of_mem hb
+    rw [hlen] at hj
+    have : ((ts.drop lo).take (hi - lo))[j]? = ts[lo + j]? := by
+      rw [List.getElem?_take_of_lt (by omega), List.getElem?_drop]
+    have h3 : ts[lo + j]? = some ((ts.drop lo).take (hi - lo))[j] := by
+      rw [← this]; exact List.getElem?_eq_getElem _
+    exact (h (lo + j) _ (by omega) (by omega) h3).symm
+  have := List.Sublist.count_le t hsub
+  rw [List.count_eq_length.mpr hall, hlen] at this
+  exact this
+
+theorem removeLoop_eq (ts : List Triple) (hsort : SortedT ts) (cut : Nat) :
+    ∀ (ids : List Triple) (loc : Nat) (sel : List Nat),
+      List.Pairwise (fun a b => tlt a b = true) ids →
+      (∀ t ∈ ids, ∃ k, loc ≤ k ∧ ts[k]? = some t) →
+      (cut = 0 ∨ ∀ t ∈ ids, ts.count t ≤ cut) →
+      removeLoop (ts.map (·.1)) (ts.map (·.2.1)) (ts.map (·.2.2)) ts.length cut ids loc sel =
+        .ok (sel ++ (List.range' loc (ts.length - loc)).filter (keepIdx ts ids)) := by
+  intro ids
+  induction ids with
+  | nil =>
+    intro loc sel _ _ _
+    simp only [removeLoop]
+    congr 2
+    symm
+    rw [List.filter_eq_self]
+    intro i hi
+    rw [List.mem_range'_1] at hi
+    have : i < ts.length := by omega
+    simp [keepIdx, List.getElem?_eq_getElem this]
+  | cons t ids ih =>
+    intro loc sel hpw hpres hcut
+    obtain ⟨e, l, v⟩ := t
+    obtain ⟨k, hk1, hk⟩ := hpres (e, l, v) (by simp)
+    obtain ⟨lo, hi, q1, q2, q3, q4, q5, q6, q7⟩ := removeLoop_step ts hsort cut e l v ids loc sel k hk1 hk
+    rw [q7]
+    have hpw' := List.pairwise_cons.mp hpw
+    have hcut0 : (if hi - lo > cut then cut else 0) = 0 := by
+      rcases hcut with h0 | hc
+      · subst h0; simp
+      · have := hc (e, l, v) (by simp)
+        have := block_count_le ts (e, l, v) lo hi (by omega) q3 q5
+        rw [if_neg (by omega)]
+    rw [hcut0, Nat.add_zero]
+    rw [ih hi _ hpw'.2 ?_ ?_]
+    · rw [List.append_assoc]
+      congr 2
+      rw [range'_split loc lo ts.length q1 (by omega), range'_split lo hi ts.length (by omega) q3,
+        List.filter_append, List.filter_append]
+      have p1 : (List.range' loc (lo - loc)).filter (keepIdx ts ((e, l, v) :: ids)) = List.range' loc (lo - loc) := by
+        rw [List.filter_eq_self]
+        intro i hi'
+        rw [List.mem_range'_1] at hi'
+        have hin : i < ts.length := by omega
+        have hlt := q4 i ts[i] hi'.1 (by omega) (List.getElem?_eq_getElem hin)
+        simp only [keepIdx, List.getElem?_eq_getElem hin, Option.any_some, List.contains_cons, Bool.not_or,
+          Bool.and_eq_true, Bool.not_eq_true', beq_eq_false_iff_ne, ne_eq]
+        constructor
+        · intro heq
+          rw [heq, tlt_iff] at hlt
+          omega
+        · rw [List.contains_eq_mem, decide_eq_false_iff_not]
+          intro hmem
+          have h2 := hpw'.1 _ hmem
+          rw [tlt_iff] at hlt h2
+          omega
+      have p2 : (List.range' lo (hi - lo)).filter (keepIdx ts ((e, l, v) :: ids)) = [] := by
+        rw [List.filter_eq_nil_iff]
+        intro i hi'
+        rw [List.mem_range'_1] at hi'
+        have hin : i < ts.length := by omega
+        have heq := q5 i ts[i] hi'.1 (by omega) (List.getElem?_eq_getElem hin)
+        simp [keepIdx, List.getElem?_eq_getElem hin, heq]
+      have p3 : (List.range' hi (ts.length - hi)).filter (keepIdx ts ((e, l, v) :: ids)) =
+          (List.range' hi (ts.length - hi)).filter (keepIdx ts ids) := by
+        apply List.filter_congr
+        intro i hi'
+        rw [List.mem_range'_1] at hi'
+        have hin : i < ts.length := by omega
+        have hgt := q6 i ts[i] hi'.1 (List.getElem?_eq_getElem hin)
+        have hne : ¬ ts[i] = (e, l, v) := by
+          intro heq
+          rw [heq, tlt_iff] at hgt
+          omega
+        simp [keepIdx, List.getElem?_eq_getElem hin, hne]
+      rw [p1, p2, p3, List.nil_append]
+    · intro t' ht'
+      obtain ⟨k', hk1', hk'⟩ := hpres t' (by simp [ht'])
+      refine ⟨k', ?_, hk'⟩
+      have hlt := hpw'.1 t' ht'
+      by_contra hc
+      by_cases hc2 : k' < lo
+      · have := q4 k' t' hk1' hc2 hk'
+        rw [tlt_iff] at this hlt
+        omega
+      · have := q5 k' t' (by omega) (by omega) hk'
+        rw [this, tlt_iff] at hlt
+        omega
+    · rcases hcut with h0 | hc
+      · exact Or.inl h0
+      · exact Or.inr (fun t' ht' => hc t' (by simp [ht']))
+
+
+theorem mem_insertT (t x : Triple) (l : List Triple) : x ∈ insertT t l ↔ x = t ∨ x ∈ l := by
+  induction l with
+  | nil => simp [insertT]
+  | cons y ys ih =>
+    simp only [insertT]
+    split
+    · simp only [List.mem_cons, ih]; tauto
+    · simp only [List.mem_cons]
+
+theorem mem_sortT (x : Triple) (l : List Triple) : x ∈ sortT l ↔ x ∈ l := by
+  induction l with
+  | nil => simp [sortT]
+  | cons y ys ih => simp only [sortT, mem_insertT, ih, List.mem_cons]
+
+theorem tlt_total (a b : Triple) (h1 : tlt a b ≠ true) (h2 : a ≠ b) : tlt b a = true := by
+  have h1' : ¬ (a.1 < b.1 ∨ (a.1 = b.1 ∧ (a.2.1 < b.2.1 ∨ (a.2.1 = b.2.1 ∧ a.2.2 < b.2.2)))) :=
+    fun h => h1 ((tlt_iff a b).mpr h)
+  rw [tlt_iff]
+  obtain ⟨a1, a2, a3⟩ := a
+  obtain ⟨b1, b2, b3⟩ := b
+  simp only [ne_eq, Prod.mk.injEq] at h2
+  simp only at h1' ⊢
+  omega
+
+theorem tlt_trans (a b c : Triple) (h1 : tlt a b = true) (h2 : tlt b c = true) : tlt a c = true := by
+  rw [tlt_iff] at h1 h2 ⊢
+  omega
+
+theorem sorted_insertT (t : Triple) (l : List Triple) (hl : List.Pairwise (fun a b => tlt a b = true) l)
+    (ht : t ∉ l) : List.Pairwise (fun a b => tlt a b = true) (insertT t l) := by
+  induction l with
+  | nil => simp [insertT]
+  | cons y ys ih =>
+    have hl' := List.pairwise_cons.mp hl
+    simp only [insertT]
+    split
+    · rename_i hyt
+      rw [List.pairwise_cons]
+      refine ⟨?_, ih hl'.2 (fun h => ht (by simp [h]))⟩
+      intro z hz
+      rcases (mem_insertT t z ys).mp hz with rfl | hz
+      · exact hyt
+      · exact hl'.1 z hz
+    · rename_i hyt
+      have hty : tlt t y = true := tlt_total y t hyt (fun h => ht (by simp [h]))
+      rw [List.pairwise_cons]
+      refine ⟨?_, hl⟩
+      intro z hz
+      rcases List.mem_cons.mp hz with rfl | hz
+      · exact hty
+      · exact tlt_trans _ _ _ hty (hl'.1 z hz)
+
+theorem sorted_sortT (l : List Triple) (h : l.Nodup) : List.Pairwise (fun a b => tlt a b = true) (sortT l) := by
+  induction l with
+  | nil => simp [sortT]
+  | cons y ys ih =>
+    have h' := List.nodup_cons.mp h
+    simp only [sortT]
+    exact sorted_insertT y _ (ih h'.2) (fun hm => h'.1 ((mem_sortT y ys).mp hm))
+
+theorem keepIdx_congr (ts ids ids' : List Triple) (h : ∀ t, t ∈ ids ↔ t ∈ ids') : keepIdx ts ids = keepIdx ts ids' := by
+  funext i
+  unfold keepIdx
+  cases ts[i]? with
+  | none => rfl
+  | some t =>
+    simp only [Option.any_some]
+    congr 1
+    rw [List.contains_eq_mem, List.contains_eq_mem]
+    simp [h t]
+
+/-- `_remove(ids, n)` under the sortedness of the id columns: exactly the row numbers whose id triple is not in `ids` -/
+theorem remove_eq (ts ids : List Triple) (cut : Nat) (hsort : SortedT ts) (hnd : ids.Nodup)
+    (hpres : ∀ t ∈ ids, t ∈ ts) (hcut : cut = 0 ∨ ∀ t ∈ ids, ts.count t ≤ cut) :
+    remove ts ids cut = .ok ((List.range ts.length).filter (keepIdx ts ids)) := by
+  unfold remove
+  rw [removeLoop_eq ts hsort cut (sortT ids) 0 [] (sorted_sortT ids hnd)]
+  · simp only [List.nil_append, Nat.sub_zero, ← List.range_eq_range']
+    rw [keepIdx_congr ts (sortT ids) ids (fun t => mem_sortT t ids)]
+  · intro t ht
+    have := hpres t ((mem_sortT t ids).mp ht)
+    obtain ⟨k, hk, rfl⟩ := List.getElem_of_mem this
+    exact ⟨k, Nat.zero_le _, List.getElem?_eq_getElem hk⟩
+  · rcases hcut with h0 | hc
+    · exact Or.inl h0
+    · exact Or.inr (fun t ht => hc t ((mem_sortT t ids).mp ht))
+
+theorem selectRows_filter {α} (rows : List α) (P : α → Bool) :
+    selectRows rows ((List.range rows.length).filter (fun i => (rows[i]?).any P)) = rows.filter P := by
+  induction rows with
+  | nil => simp [selectRows]
+  | cons r rs ih =>
+    unfold selectRows at ih ⊢
+    rw [List.length_cons, List.range_succ_eq_map, List.filter_cons, List.filter_map, List.filter_cons]
+    have e1 : ((fun i => ((r :: rs)[i]?).any P) ∘ Nat.succ) = fun i => (rs[i]?).any P := by
+      funext i; simp
+    have e2 : ((fun i => (r :: rs)[i]?) ∘ Nat.succ) = fun i => rs[i]? := by
+      funext i; simp
+    rw [e1]
+    by_cases hp : P r = true
+    · simp only [List.getElem?_cons_zero, Option.any_some, hp, if_true, List.filterMap_cons, List.filterMap_map]
+      rw [e2, ih]
+    · simp only [List.getElem?_cons_zero, Option.any_some, hp, Bool.false_eq_true, if_false, List.filterMap_map]
+      rw [e2, ih]
+
+theorem keepIdx_rows (rows : List IRow) (ids : List Triple) :
+    keepIdx (rows.map IRow.triple) ids = fun i => (rows[i]?).any (fun r => !(ids.contains r.triple)) := by
+  funext i
+  unfold keepIdx
+  rw [List.getElem?_map]
+  cases rows[i]? <;> rfl
+
+/-- the rows `_remove` selects are exactly the rows whose id triple is not in `ids` -/
+theorem remove_select (rows : List IRow) (ids : List Triple) (cut : Nat)
+    (hsort : SortedT (rows.map IRow.triple)) (hnd : ids.Nodup)
+    (hpres : ∀ t ∈ ids, t ∈ rows.map IRow.triple)
+    (hcut : cut = 0 ∨ ∀ t ∈ ids, (rows.map IRow.triple).count t ≤ cut) :
+    ∃ sel, remove (rows.map IRow.triple) ids cut = .ok sel ∧
+      selectRows rows sel = rows.filter (fun r => !(ids.contains r.triple)) := by
+  refine ⟨_, remove_eq _ ids cut hsort hnd hpres hcut, ?_⟩
+  rw [List.length_map, keepIdx_rows]
+  exact selectRows_filter rows _
+
+
+/-! ## Part 3: the keep rule of `_group_p` -/
+
+
+section dedup
+variable {α : Type} [DecidableEq α]
+
+theorem mem_dedup (x : α) (l : List α) : x ∈ dedup l ↔ x ∈ l := by
+  induction l with
+  | nil => simp [dedup]
+  | cons y ys ih =>
+    simp only [dedup, List.mem_cons, List.mem_filter, ih, decide_eq_true_eq]
+    by_cases h : x = y <;> simp [h]
+
+theorem nodup_dedup (l : List α) : (dedup l).Nodup := by
+  induction l with
+  | nil => simp [dedup]
+  | cons y ys ih =>
+    simp only [dedup, List.nodup_cons, List.mem_filter, decide_eq_true_eq]
+    exact ⟨fun h => h.2 rfl, ih.filter _⟩
+
+theorem dedup_sublist (l : List α) : (dedup l).Sublist l := by
+  induction l with
+  | nil => simp [dedup]
+  | cons y ys ih =>
+    simp only [dedup]
+    exact List.Sublist.cons_cons _ ((List.filter_sublist).trans ih)
+
+theorem dedup_of_nodup (l : List α) (h : l.Nodup) : dedup l = l := by
+  induction l with
+  | nil => simp [dedup]
+  | cons y ys ih =>
+    have h' := List.nodup_cons.mp h
+    simp only [dedup, ih h'.2]
+    congr 1
+    rw [List.filter_eq_self]
+    intro a ha
+    simp only [decide_eq_true_eq]
+    intro hc
+    exact h'.1 (hc ▸ ha)
+
+theorem nodup_of_dedup_length (l : List α) (h : l.length ≤ (dedup l).length) : l.Nodup := by
+  have := (dedup_sublist l).eq_of_length_le h
+  rw [← this]
+  exact nodup_dedup l
+
+end dedup
+
+/-- number of evaluations of a group at level `lv` -/
+def levelCount (g : List Idx) (lv : Key) : Nat := (g.filter (fun i => i.l = lv)).length
+
+theorem levelCount_eq_count (g : List Idx) (lv : Key) : levelCount g lv = (g.map (·.l)).count lv := by
+  unfold levelCount
+  rw [List.count_eq_countP, List.countP_map, List.countP_eq_length_filter]
+  congr 2
+  funext i
+  by_cases h : i.l = lv
+  · simp [h]
+  · have h' : ¬ lv = i.l := fun hc => h hc.symm
+    simp [h, h']
+
+/-- the repaired keep rule is the property's: exactly one evaluation for every compared level -/
+theorem groupKeep_fixed_iff (levels : List Key) (hl : levels.Nodup) (g : List Idx)
+    (hsub : ∀ i ∈ g, i.l ∈ levels) :
+    groupKeep true levels.length g = true ↔ ∀ lv ∈ levels, levelCount g lv = 1 := by
+  have hsub' : g.map (·.l) ⊆ levels := by
+    intro x hx
+    obtain ⟨i, hi, rfl⟩ := List.mem_map.mp hx
+    exact hsub i hi
+  simp only [groupKeep, if_true, Bool.and_eq_true, Bool.not_eq_true', decide_eq_false_iff_not, not_lt]
+  constructor
+  · rintro ⟨h1, h2⟩ lv hlv
+    rw [levelCount_eq_count]
+    have hd : (dedup (g.map (·.l))).length ≤ (g.map (·.l)).length := (dedup_sublist _).length_le
+    have hnd : (g.map (·.l)).Nodup := nodup_of_dedup_length _ (by simp only [List.length_map] at hd ⊢; omega)
+    have hsp : (dedup (g.map (·.l))).Subperm levels :=
+      (nodup_dedup _).subperm (fun x hx => hsub' ((mem_dedup x _).mp hx))
+    have hperm := hsp.perm_of_length_le h2
+    have hmem : lv ∈ g.map (·.l) := (mem_dedup lv _).mp (hperm.mem_iff.mpr hlv)
+    exact List.count_eq_one_of_mem hnd hmem
+  · intro h
+    have hnd : (g.map (·.l)).Nodup := by
+      rw [List.nodup_iff_count_le_one]
+      intro a
+      by_cases ha : a ∈ g.map (·.l)
+      · have := h a (hsub' ha)
+        rw [levelCount_eq_count] at this
+        omega
+      · rw [List.count_eq_zero_of_not_mem ha]; omega
+    have hsup : levels ⊆ g.map (·.l) := by
+      intro lv hlv
+      have := h lv hlv
+      rw [levelCount_eq_count] at this
+      exact List.count_pos_iff.mp (by omega)
+    have hperm : (g.map (·.l)).Perm levels :=
+      (hnd.subperm hsub').antisymm (hl.subperm hsup)
+    have hlen := hperm.length_eq
+    rw [dedup_of_nodup _ hnd]
+    simp only [List.length_map] at hlen ⊢
+    omega
+
+/-- the rule of the unchanged code agrees with the property only when no level occurs twice in the group -/
+theorem groupKeep_legacy_iff (levels : List Key) (hl : levels.Nodup) (g : List Idx)
+    (hsub : ∀ i ∈ g, i.l ∈ levels) (hnd : (g.map (·.l)).Nodup) :
+    groupKeep false levels.length g = true ↔ ∀ lv ∈ levels, levelCount g lv = 1 := by
+  rw [← groupKeep_fixed_iff levels hl g hsub]
+  simp only [groupKeep, if_true, Bool.false_eq_true, if_false, Bool.and_eq_true, Bool.not_eq_true',
+    decide_eq_false_iff_not, not_lt]
+  rw [dedup_of_nodup _ hnd]
+  simp only [List.length_map]
+
+
+
+/-! ## Part 4: runs, `_group_p` -/
+
+
+/-! runs -/
+
+theorem runs_flatMap (l : List IRow) : (runs l).flatMap (·.2) = l := by
+  induction l with
+  | nil => simp [runs]
+  | cons r rs ih =>
+    simp only [runs]
+    cases h : runs rs with
+    | nil =>
+      rw [h] at ih
+      simp at ih
+      simp [← ih]
+    | cons g rest =>
+      obtain ⟨t, gl⟩ := g
+      rw [h] at ih
+      simp only
+      split
+      · simp only [List.flatMap_cons] at ih ⊢
+        rw [List.cons_append, ih]
+      · simp only [List.flatMap_cons] at ih ⊢
+        simp [ih]
+
+theorem runs_spec (l : List IRow) : ∀ g ∈ runs l, g.2 ≠ [] ∧ ∀ row ∈ g.2, row.triple = g.1 := by
+  induction l with
+  | nil => simp [runs]
+  | cons r rs ih =>
+    simp only [runs]
+    cases h : runs rs with
+    | nil => simp
+    | cons g rest =>
+      obtain ⟨t, gl⟩ := g
+      rw [h] at ih
+      simp only
+      split
+      · rename_i heq
+        intro g' hg'
+        rcases List.mem_cons.mp hg' with rfl | hg'
+        · refine ⟨by simp, ?_⟩
+          intro row hrow
+          rcases List.mem_cons.mp hrow with rfl | hrow
+          · exact heq.symm
+          · exact (ih (t, gl) (by simp)).2 row hrow
+        · exact ih g' (by simp [hg'])
+      · intro g' hg'
+        rcases List.mem_cons.mp hg' with rfl | hg'
+        · simp
+        · exact ih g' hg'
+
+theorem runs_head_triple (r : IRow) (rs : List IRow) : ∃ g rest, runs (r :: rs) = (r.triple, g) :: rest := by
+  simp only [runs]
+  cases h : runs rs with
+  | nil => exact ⟨_, _, rfl⟩
+  | cons g rest =>
+    obtain ⟨t, gl⟩ := g
+    simp only
+    split
+    · rename_i heq; subst heq; exact ⟨_, _, rfl⟩
+    · exact ⟨_, _, rfl⟩
+
+theorem mem_runs_triple (l : List IRow) : ∀ g ∈ runs l, ∃ row ∈ l, row.triple = g.1 := by
+  intro g hg
+  have h1 := runs_spec l g hg
+  obtain ⟨row, hrow⟩ := List.exists_mem_of_ne_nil _ h1.1
+  refine ⟨row, ?_, h1.2 row hrow⟩
+  rw [← runs_flatMap l]
+  exact List.mem_flatMap.mpr ⟨g, hg, hrow⟩
+
+theorem row_triple_mem_runs (l : List IRow) (row : IRow) (h : row ∈ l) : row.triple ∈ (runs l).map (·.1) := by
+  rw [← runs_flatMap l] at h
+  obtain ⟨g, hg, hrow⟩ := List.mem_flatMap.mp h
+  exact List.mem_map.mpr ⟨g, hg, ((runs_spec l g hg).2 row hrow).symm⟩
+
+theorem tle_ne_tlt (a b : Triple) (h1 : tle a b = true) (h2 : a ≠ b) : tlt a b = true := by
+  rw [tle_iff] at h1
+  rw [tlt_iff]
+  obtain ⟨a1, a2, a3⟩ := a
+  obtain ⟨b1, b2, b3⟩ := b
+  simp only [ne_eq, Prod.mk.injEq] at h2
+  simp only at h1 ⊢
+  omega
+
+/-- in a table sorted by the id columns the runs have strictly increasing (hence distinct) id triples -/
+theorem runs_sorted (l : List IRow) (hs : SortedIds l) :
+    List.Pairwise (fun a b => tlt a b = true) ((runs l).map (·.1)) := by
+  induction l with
+  | nil => simp [runs]
+  | cons r rs ih =>
+    have hs' := List.pairwise_cons.mp hs
+    have ih' := ih hs'.2
+    have hmem := mem_runs_triple rs
+    simp only [runs]
+    cases h : runs rs with
+    | nil => simp
+    | cons g rest =>
+      obtain ⟨t, gl⟩ := g
+      rw [h] at ih' hmem
+      simp only
+      split
+      · simpa using ih'
+      · rename_i hne
+        simp only [List.map_cons, List.pairwise_cons] at ih' ⊢
+        refine ⟨?_, ih'⟩
+        have ht : tlt r.triple t = true := by
+          obtain ⟨row, hrow, hrt⟩ := hmem (t, gl) (by simp)
+          have := hs'.1 row hrow
+          rw [hrt] at this
+          exact tle_ne_tlt _ _ this (fun hc => hne hc.symm)
+        intro t' ht'
+        rcases List.mem_cons.mp ht' with rfl | ht'
+        · exact ht
+        · exact tlt_trans _ _ _ ht (ih'.1 t' ht')
+
+theorem tlt_irrefl (a : Triple) : tlt a a ≠ true := by
+  rw [Ne, tlt_iff]; omega
+
+theorem runs_nodup (l : List IRow) (hs : SortedIds l) : ((runs l).map (·.1)).Nodup := by
+  have := runs_sorted l hs
+  unfold List.Nodup
+  refine this.imp ?_
+  intro a b hab heq
+  subst heq
+  exact tlt_irrefl a hab
+
+theorem sortedT_of_sortedIds (l : List IRow) (hs : SortedIds l) : SortedT (l.map IRow.triple) := by
+  intro i j a b hij ha hb
+  rw [List.getElem?_map] at ha hb
+  obtain ⟨ra, hra, rfl⟩ := Option.map_eq_some_iff.mp ha
+  obtain ⟨rb, hrb, rfl⟩ := Option.map_eq_some_iff.mp hb
+  rcases Nat.lt_or_eq_of_le hij with hlt | heq
+  · have hi : i < l.length := by
+      by_contra hc; rw [List.getElem?_eq_none (by omega)] at hra; cases hra
+    have hj : j < l.length := by
+      by_contra hc; rw [List.getElem?_eq_none (by omega)] at hrb; cases hrb
+    have := List.pairwise_iff_getElem.mp hs i j hi hj hlt
+    rw [List.getElem?_eq_getElem hi] at hra
+    rw [List.getElem?_eq_getElem hj] at hrb
+    cases hra; cases hrb
+    exact this
+  · subst heq
+    rw [hra] at hrb
+    cases hrb
+    rw [tle_iff]; omega
+
+
+/-! `_group_p` -/
+
+theorem lookup_ok {rows : List PRow} {id : Nat} {p : PRow} (h : lookup rows id = .ok p) : p ∈ rows ∧ p.id = id := by
+  induction rows with
+  | nil => simp [lookup] at h
+  | cons r rs ih =>
+    simp only [lookup] at h
+    split at h
+    · cases h
+      rename_i heq
+      exact ⟨by simp, heq⟩
+    · have := ih h
+      exact ⟨by simp [this.1], this.2⟩
+
+theorem mkIndexes_spec (r : Result) (lc pc : List Col) : ∀ (ts : List Triple) (ix : List Idx),
+    mkIndexes r lc pc ts = .ok ix →
+    ix.map (·.t) = ts ∧ ∀ t ∈ ts, (∃ p ∈ r.envs, p.id = t.1) ∧ (∃ p ∈ r.lrns, p.id = t.2.1) ∧ (∃ p ∈ r.evals, p.id = t.2.2) := by
+  intro ts
+  induction ts with
+  | nil =>
+    intro ix h
+    simp only [mkIndexes] at h
+    cases h
+    simp
+  | cons t ts ih =>
+    intro ix h
+    simp only [mkIndexes] at h
+    cases h1 : lookup r.envs t.1 with
+    | error x => simp [h1] at h
+    | ok e =>
+      cases h2 : lookup r.lrns t.2.1 with
+      | error x => simp [h1, h2] at h
+      | ok l =>
+        cases h3 : lookup r.evals t.2.2 with
+        | error x => simp [h1, h2, h3] at h
+        | ok v =>
+          simp only [h1, h2, h3] at h
+          cases h4 : keyOf e l v t pc with
+          | error x => simp [h4] at h
+          | ok pk =>
+            cases h5 : keyOf e l v t lc with
+            | error x => simp [h4, h5] at h
+            | ok lk =>
+              simp only [h4, h5] at h
+              cases h6 : mkIndexes r lc pc ts with
+              | error x => simp [h6] at h
+              | ok rest =>
+                simp only [h6] at h
+                cases h
+                have := ih rest h6
+                refine ⟨by simp [this.1], ?_⟩
+                intro t' ht'
+                rcases List.mem_cons.mp ht' with rfl | ht'
+                · exact ⟨⟨e, (lookup_ok h1).1, (lookup_ok h1).2⟩, ⟨l, (lookup_ok h2).1, (lookup_ok h2).2⟩,
+                    ⟨v, (lookup_ok h3).1, (lookup_ok h3).2⟩⟩
+                · exact this.2 t' ht'
+
+theorem sublist_flatten {α} {l1 l2 : List (List α)} (h : l1.Sublist l2) : l1.flatten.Sublist l2.flatten := by
+  induction h with
+  | slnil => simp
+  | cons a _ ih => simp only [List.flatten_cons]; exact ih.trans (List.sublist_append_right _ _)
+  | cons_cons a _ ih => simp only [List.flatten_cons]; exact List.Sublist.append_left ih a
+
+theorem removeRows_eq (rows : List IRow) (ids : List Triple) (cut : Nat) (hs : SortedIds rows) (hnd : ids.Nodup)
+    (hpres : ∀ t ∈ ids, t ∈ rows.map IRow.triple)
+    (hcut : cut = 0 ∨ ∀ t ∈ ids, (rows.map IRow.triple).count t ≤ cut) :
+    removeRows rows ids cut = .ok (rows.filter (fun r => !(ids.contains r.triple))) := by
+  unfold removeRows
+  split
+  · rename_i hemp
+    rw [List.isEmpty_iff] at hemp
+    subst hemp
+    simp
+  · obtain ⟨sel, hsel, hrows⟩ := remove_select rows ids cut (sortedT_of_sortedIds _ hs) hnd hpres hcut
+    rw [hsel]
+    simp only
+    rw [hrows]
+
+theorem mem_groups_flatten (ix : List Idx) (K : List Idx → Bool) (i : Idx) :
+    i ∈ ((groupsOf ix).filter K).flatten ↔ i ∈ ix ∧ K (ix.filter (fun j => j.p = i.p)) = true := by
+  simp only [groupsOf, List.mem_flatten, List.mem_filter, List.mem_map, mem_dedup]
+  constructor
+  · rintro ⟨g, ⟨⟨k, _, rfl⟩, hK⟩, hi⟩
+    simp only [List.mem_filter, decide_eq_true_eq] at hi
+    obtain ⟨hi1, hi2⟩ := hi
+    subst hi2
+    exact ⟨hi1, hK⟩
+  · rintro ⟨hi, hK⟩
+    exact ⟨_, ⟨⟨i.p, ⟨i, hi, rfl⟩, rfl⟩, hK⟩, by simp [hi]⟩
+
+theorem groups_flatten_nodup (ix : List Idx) (h : ix.Nodup) : (groupsOf ix).flatten.Nodup := by
+  rw [List.nodup_flatten]
+  constructor
+  · intro g hg
+    simp only [groupsOf, List.mem_map] at hg
+    obtain ⟨k, _, rfl⟩ := hg
+    exact h.filter _
+  · simp only [groupsOf, List.pairwise_map]
+    refine (nodup_dedup (ix.map (·.p))).imp ?_
+    intro a b hab
+    intro i h1 h2
+    simp only [List.mem_filter, decide_eq_true_eq] at h1 h2
+    exact hab (h1.2.symm.trans h2.2)
+
+theorem completeGroup_iff (ix : List Idx) (k : Key) :
+    completeGroup ix k = true ↔ groupKeep true (dedup (ix.map (·.l))).length (ix.filter (fun i => i.p = k)) = true := by
+  rw [groupKeep_fixed_iff (dedup (ix.map (·.l))) (nodup_dedup _)]
+  · simp only [completeGroup, levelsOf, List.all_eq_true, decide_eq_true_eq, levelCount]
+  · intro i hi
+    rw [mem_dedup]
+    exact List.mem_map.mpr ⟨i, (List.mem_filter.mp hi).1, rfl⟩
+
+theorem filterTable_eq (rows : List PRow) (keep : List Nat) (hu : (rows.map (·.id)).Nodup)
+    (hsub : ∀ k ∈ keep, k ∈ rows.map (·.id)) :
+    filterTable rows keep = rows.filter (fun p => keep.contains p.id) := by
+  unfold filterTable
+  split
+  · rfl
+  · rename_i hlen
+    have hlen : (dedup keep).length = rows.length := by omega
+    symm
+    rw [List.filter_eq_self]
+    intro p hp
+    have hsp : (dedup keep).Subperm (rows.map (·.id)) :=
+      (nodup_dedup keep).subperm (fun x hx => hsub x ((mem_dedup x keep).mp hx))
+    have hperm := hsp.perm_of_length_le (by simp [hlen])
+    have : p.id ∈ dedup keep := hperm.mem_iff.mpr (List.mem_map.mpr ⟨p, hp, rfl⟩)
+    simpa using (mem_dedup _ _).mp this
+
+theorem filterTable_kept (rows : List PRow) (hu : (rows.map (·.id)).Nodup) (keepT : List Triple) (f : Triple → Nat)
+    (ints' : List IRow)
+    (hsub : ∀ t ∈ keepT, ∃ p ∈ rows, p.id = f t)
+    (hT : ∀ t, t ∈ keepT ↔ ∃ row ∈ ints', row.triple = t) :
+    filterTable rows (keepT.map f) = rows.filter (fun p => (ints'.map (fun row => f row.triple)).contains p.id) := by
+  rw [filterTable_eq rows _ hu]
+  · apply List.filter_congr
+    intro p _
+    rw [List.contains_eq_mem, List.contains_eq_mem]
+    congr 1
+    apply propext
+    simp only [List.mem_map]
+    constructor
+    · rintro ⟨t, ht, hft⟩
+      obtain ⟨row, hrow, rfl⟩ := (hT t).mp ht
+      exact ⟨row, hrow, hft⟩
+    · rintro ⟨row, hrow, hft⟩
+      exact ⟨row.triple, (hT _).mpr ⟨row, hrow, rfl⟩, hft⟩
+  · intro k hk
+    obtain ⟨t, ht, rfl⟩ := List.mem_map.mp hk
+    obtain ⟨p, hp, hpid⟩ := hsub t ht
+    exact List.mem_map.mpr ⟨p, hp, hpid⟩
+
+/-- `_group_p` with the repaired rule keeps exactly the rows of the complete groups and exactly the
+parameter rows those rows refer to -/
+theorem groupP_eq (r : Result) (lc pc : List Col) (ix : List Idx)
+    (hs : SortedIds r.ints) (hu : UniqueIds r)
+    (hix : mkIndexes r lc pc ((runs r.ints).map (·.1)) = .ok ix) :
+    groupP true r lc pc = .ok (restrictTables r (groupPIntsS r.ints ix)) := by
+  obtain ⟨hmap, hpres⟩ := mkIndexes_spec r lc pc _ ix hix
+  have hnd_t : (ix.map (·.t)).Nodup := by rw [hmap]; exact runs_nodup _ hs
+  have hnd : ix.Nodup := List.Nodup.of_map _ hnd_t
+  have hinj : ∀ i ∈ ix, ∀ j ∈ ix, i.t = j.t → i = j := List.inj_on_of_nodup_map hnd_t
+  have hrowix : ∀ row ∈ r.ints, ∃ i ∈ ix, i.t = row.triple := by
+    intro row hrow
+    have := row_triple_mem_runs _ row hrow
+    rw [← hmap] at this
+    obtain ⟨i, hi, hit⟩ := List.mem_map.mp this
+    exact ⟨i, hi, hit⟩
+  -- membership in the keep / remove lists
+  have hK : ∀ i ∈ ix, (groupKeep true (dedup (ix.map (·.l))).length (ix.filter (fun j => j.p = i.p)) = true ↔
+      (keptTriplesS ix).contains i.t = true) := by
+    intro i hi
+    rw [← completeGroup_iff, List.contains_eq_mem, decide_eq_true_eq]
+    simp only [keptTriplesS, List.mem_map, List.mem_filter]
+    constructor
+    · intro h; exact ⟨i, ⟨hi, h⟩, rfl⟩
+    · rintro ⟨j, ⟨hj, hc⟩, hjt⟩
+      rw [← hinj j hj i hi hjt]; exact hc
+  have hkeep : ∀ t, t ∈ (((groupsOf ix).filter (fun g => groupKeep true (dedup (ix.map (·.l))).length g)).flatten).map (·.t) ↔
+      t ∈ keptTriplesS ix := by
+    intro t
+    simp only [List.mem_map, mem_groups_flatten]
+    constructor
+    · rintro ⟨i, ⟨hi, hk⟩, rfl⟩
+      simpa using (hK i hi).mp hk
+    · intro ht
+      simp only [keptTriplesS, List.mem_map, List.mem_filter] at ht
+      obtain ⟨i, ⟨hi, hc⟩, rfl⟩ := ht
+      exact ⟨i, ⟨hi, (completeGroup_iff ix i.p).mp hc⟩, rfl⟩
+  have hrem : ∀ i ∈ ix, (i.t ∈ (((groupsOf ix).filter (fun g => !groupKeep true (dedup (ix.map (·.l))).length g)).flatten).map (·.t) ↔
+      ¬ (keptTriplesS ix).contains i.t = true) := by
+    intro i hi
+    rw [← hK i hi]
+    simp only [List.mem_map, mem_groups_flatten, Bool.not_eq_true', Bool.not_eq_eq_eq_not, Bool.not_true]
+    constructor
+    · rintro ⟨j, ⟨hj, hk⟩, hjt⟩
+      rw [← hinj j hj i hi hjt]; simpa using hk
+    · intro h; exact ⟨i, ⟨hi, by simpa using h⟩, rfl⟩
+  -- the interaction rows
+  have hnd_rem : ((((groupsOf ix).filter (fun g => !groupKeep true (dedup (ix.map (·.l))).length g)).flatten).map (·.t)).Nodup := by
+    apply List.Nodup.map_on
+    · intro a ha b hb hab
+      exact hinj a ((mem_groups_flatten ix _ a).mp ha).1 b ((mem_groups_flatten ix _ b).mp hb).1 hab
+    · exact (sublist_flatten List.filter_sublist).nodup (groups_flatten_nodup ix hnd)
+  have hints := removeRows_eq r.ints _ 0 hs hnd_rem (by
+    intro t ht
+    obtain ⟨i, hi, rfl⟩ := List.mem_map.mp ht
+    have hi' := ((mem_groups_flatten ix _ i).mp hi).1
+    have : i.t ∈ (runs r.ints).map (·.1) := by rw [← hmap]; exact List.mem_map.mpr ⟨i, hi', rfl⟩
+    obtain ⟨g, hg, hgt⟩ := List.mem_map.mp this
+    obtain ⟨row, hrow, hrt⟩ := mem_runs_triple _ g hg
+    exact List.mem_map.mpr ⟨row, hrow, by rw [hrt, hgt]⟩) (Or.inl rfl)
+  have hfilt : r.ints.filter (fun row => !((((groupsOf ix).filter (fun g => !groupKeep true (dedup (ix.map (·.l))).length g)).flatten).map (·.t)).contains row.triple) =
+      groupPIntsS r.ints ix := by
+    unfold groupPIntsS
+    apply List.filter_congr
+    intro row hrow
+    obtain ⟨i, hi, hit⟩ := hrowix row hrow
+    rw [← hit]
+    have := hrem i hi
+    rw [← List.contains_iff_mem] at this
+    cases h1 : (keptTriplesS ix).contains i.t <;> simp_all
+  rw [hfilt] at hints
+  unfold groupP
+  rw [hix]
+  simp only
+  rw [hints]
+  simp only
+  have hT : ∀ t, t ∈ (((groupsOf ix).filter (fun g => groupKeep true (dedup (ix.map (·.l))).length g)).flatten).map (·.t) ↔
+      ∃ row ∈ groupPIntsS r.ints ix, row.triple = t := by
+    intro t
+    rw [hkeep t]
+    unfold groupPIntsS
+    simp only [List.mem_filter, List.contains_eq_mem, decide_eq_true_eq]
+    constructor
+    · intro ht
+      have ht' := ht
+      simp only [keptTriplesS, List.mem_map, List.mem_filter] at ht'
+      obtain ⟨i, ⟨hi, _⟩, rfl⟩ := ht'
+      have : i.t ∈ (runs r.ints).map (·.1) := by rw [← hmap]; exact List.mem_map.mpr ⟨i, hi, rfl⟩
+      obtain ⟨g, hg, hgt⟩ := List.mem_map.mp this
+      obtain ⟨row, hrow, hrt⟩ := mem_runs_triple _ g hg
+      exact ⟨row, ⟨hrow, by rw [hrt, hgt]; exact ht⟩, by rw [hrt, hgt]⟩
+    · rintro ⟨row, ⟨_, hk⟩, rfl⟩
+      exact hk
+  have hsubT : ∀ t ∈ (((groupsOf ix).filter (fun g => groupKeep true (dedup (ix.map (·.l))).length g)).flatten).map (·.t),
+      t ∈ (runs r.ints).map (·.1) := by
+    intro t ht
+    obtain ⟨i, hi, rfl⟩ := List.mem_map.mp ht
+    rw [← hmap]
+    exact List.mem_map.mpr ⟨i, ((mem_groups_flatten ix _ i).mp hi).1, rfl⟩
+  rw [filterTable_kept r.envs hu.1 _ (·.1) _ (fun t ht => by
+        obtain ⟨p, hp, hpid⟩ := (hpres t (hsubT t ht)).1; exact ⟨p, hp, hpid⟩) hT,
+    filterTable_kept r.lrns hu.2.1 _ (·.2.1) _ (fun t ht => by
+        obtain ⟨p, hp, hpid⟩ := (hpres t (hsubT t ht)).2.1; exact ⟨p, hp, hpid⟩) hT,
+    filterTable_kept r.evals hu.2.2 _ (·.2.2) _ (fun t ht => by
+        obtain ⟨p, hp, hpid⟩ := (hpres t (hsubT t ht)).2.2; exact ⟨p, hp, hpid⟩) hT]
+  rfl
+
+
+
+
+/-! `_global_n` -/
+
+theorem filter_idx_take_aux (g : List IRow) : ∀ (s m : Nat), g.map (·.idx) = List.range' s g.length →
+    g.filter (fun row => decide (row.idx < s + m)) = g.take m := by
+  induction g with
+  | nil => intro s m _; simp
+  | cons r rs ih =>
+    intro s m h
+    simp only [List.map_cons, List.length_cons, List.range'_succ, List.cons.injEq] at h
+    obtain ⟨h1, h2⟩ := h
+    cases m with
+    | zero =>
+      simp only [Nat.add_zero, List.take_zero, List.filter_eq_nil_iff, decide_eq_true_eq, not_lt]
+      intro a ha
+      rcases List.mem_cons.mp ha with rfl | ha
+      · omega
+      · have : a.idx ∈ rs.map (·.idx) := List.mem_map.mpr ⟨a, ha, rfl⟩
+        rw [h2, List.mem_range'_1] at this
+        omega
+    | succ m =>
+      have hr : decide (r.idx < s + (m + 1)) = true := by simp; omega
+      rw [List.filter_cons, if_pos hr, List.take_succ_cons]
+      congr 1
+      have := ih (s + 1) m h2
+      rw [← this]
+      apply List.filter_congr
+      intro a _
+      congr 1
+      apply propext
+      omega
+
+theorem filter_idx_take (g : List IRow) (m : Nat) (h : g.map (·.idx) = List.range' 1 g.length) :
+    g.filter (fun row => decide (row.idx ≤ m)) = g.take m := by
+  rw [← filter_idx_take_aux g 1 m h]
+  apply List.filter_congr
+  intro a _
+  congr 1
+  apply propext
+  omega
+
+theorem run_fst_inj (l : List IRow) (hs : SortedIds l) : ∀ g ∈ runs l, ∀ g' ∈ runs l, g.1 = g'.1 → g = g' :=
+  List.inj_on_of_nodup_map (runs_nodup l hs)
+
+/-- in a sorted table the run of `t` holds all the rows with id triple `t` -/
+theorem count_run (G : List (Triple × List IRow)) (hnd : (G.map (·.1)).Nodup)
+    (hsp : ∀ g ∈ G, ∀ row ∈ g.2, row.triple = g.1) :
+    ∀ g ∈ G, ((G.flatMap (·.2)).map IRow.triple).count g.1 = g.2.length := by
+  induction G with
+  | nil => simp
+  | cons g0 G' ih =>
+    intro g hg
+    have hnd' : g0.1 ∉ G'.map (·.1) ∧ (G'.map (·.1)).Nodup := List.nodup_cons.mp (by rw [List.map_cons] at hnd; exact hnd)
+    simp only [List.flatMap_cons, List.map_append, List.count_append]
+    have hall0 : ∀ b ∈ g0.2.map IRow.triple, g0.1 = b := by
+      intro b hb
+      obtain ⟨row, hrow, rfl⟩ := List.mem_map.mp hb
+      exact (hsp g0 (by simp) row hrow).symm
+    have hrest : ∀ t, t ∈ (G'.flatMap (·.2)).map IRow.triple → t ∈ G'.map (·.1) := by
+      intro t ht
+      obtain ⟨row, hrow, rfl⟩ := List.mem_map.mp ht
+      obtain ⟨g', hg', hrow'⟩ := List.mem_flatMap.mp hrow
+      exact List.mem_map.mpr ⟨g', hg', (hsp g' (by simp [hg']) row hrow').symm⟩
+    rcases List.mem_cons.mp hg with rfl | hg'
+    · rw [List.count_eq_length.mpr hall0, List.count_eq_zero_of_not_mem (fun hc => hnd'.1 (hrest _ hc))]
+      simp
+    · have hne : g0.1 ≠ g.1 := fun hc => hnd'.1 (hc ▸ List.mem_map.mpr ⟨g, hg', rfl⟩)
+      rw [List.count_eq_zero_of_not_mem (fun hc => hne (hall0 _ hc)),
+        ih hnd'.2 (fun g' hg'' => hsp g' (by simp [hg''])) g hg']
+      simp
+
+
+theorem minOf_le_left (m : Nat) (xs : List Nat) : minOf m xs ≤ m := by
+  induction xs generalizing m with
+  | nil => simp [minOf]
+  | cons x xs ih =>
+    simp only [minOf]
+    split
+    · exact (ih x).trans (by omega)
+    · exact ih m
+
+theorem minOf_le_mem (m : Nat) (xs : List Nat) : ∀ x ∈ xs, minOf m xs ≤ x := by
+  induction xs generalizing m with
+  | nil => simp
+  | cons y ys ih =>
+    intro x hx
+    simp only [minOf]
+    rcases List.mem_cons.mp hx with rfl | hx
+    · split
+      · exact minOf_le_left _ _
+      · exact (minOf_le_left _ _).trans (by omega)
+    · exact ih _ x hx
+
+theorem le_minOf (k m : Nat) (xs : List Nat) (hm : k ≤ m) (hx : ∀ x ∈ xs, k ≤ x) : k ≤ minOf m xs := by
+  induction xs generalizing m with
+  | nil => simpa [minOf]
+  | cons y ys ih =>
+    simp only [minOf]
+    split
+    · exact ih y (hx y (by simp)) (fun x h => hx x (by simp [h]))
+    · exact ih m hm (fun x h => hx x (by simp [h]))
+
+/-- parameter rows all stay when every one of them is still referenced -/
+theorem filter_referenced_self (rows : List PRow) (ids : List Nat) (h : ∀ p ∈ rows, p.id ∈ ids) :
+    rows = rows.filter (fun p => ids.contains p.id) := by
+  symm
+  rw [List.filter_eq_self]
+  intro p hp
+  simpa using h p hp
+
+theorem filter_runs (l : List IRow) (P : IRow → Bool) : l.filter P = (runs l).flatMap (fun g => g.2.filter P) := by
+  conv_lhs => rw [← runs_flatMap l]
+  rw [List.filter_flatMap]
+
+theorem globalN_k_eq (r : Result) (n : Nat) (hn : 1 ≤ n) (hs : SortedIds r.ints) (hu : UniqueIds r)
+    (hw : IdxWF r.ints) (hrefs : RefsPresent r) (hall : AllReferenced r) :
+    globalN r (.k n) = .ok (restrictTables r (globalNIntsS r.ints (.k n))) := by
+  have hnd := runs_nodup r.ints hs
+  have hinj := run_fst_inj r.ints hs
+  have hspec := runs_spec r.ints
+  have hdropmem : ∀ g ∈ runs r.ints, (g.1 ∈ ((runs r.ints).filter (fun g => decide (g.2.length < n))).map (·.1) ↔ g.2.length < n) := by
+    intro g hg
+    simp only [List.mem_map, List.mem_filter, decide_eq_true_eq]
+    constructor
+    · rintro ⟨g', ⟨hg', hl⟩, heq⟩
+      rw [← hinj g' hg' g hg heq]; exact hl
+    · intro hl; exact ⟨g, ⟨hg, hl⟩, rfl⟩
+  have hrm := removeRows_eq r.ints (((runs r.ints).filter (fun g => decide (g.2.length < n))).map (·.1)) n hs
+    ((List.filter_sublist.map _).nodup hnd)
+    (by
+      intro t ht
+      obtain ⟨g, hg, rfl⟩ := List.mem_map.mp ht
+      obtain ⟨row, hrow, hrt⟩ := mem_runs_triple _ g (List.mem_filter.mp hg).1
+      exact List.mem_map.mpr ⟨row, hrow, hrt⟩)
+    (Or.inr (by
+      intro t ht
+      obtain ⟨g, hg, rfl⟩ := List.mem_map.mp ht
+      have hg' := List.mem_filter.mp hg
+      have := count_run (runs r.ints) hnd (fun g hg => (hspec g hg).2) g hg'.1
+      rw [runs_flatMap] at this
+      rw [this]
+      have := hg'.2
+      simp only [decide_eq_true_eq] at this
+      omega))
+  have hints : (r.ints.filter (fun row => !((((runs r.ints).filter (fun g => decide (g.2.length < n))).map (·.1)).contains row.triple))).filter
+      (fun row => decide (row.idx ≤ n)) = globalNIntsS r.ints (.k n) := by
+    unfold globalNIntsS
+    simp only
+    rw [List.filter_filter, filter_runs]
+    apply List.flatMap_congr
+    intro g hg
+    rw [← List.filter_filter]
+    by_cases hl : g.2.length < n
+    · have h1 : g.2.filter (fun row => !((((runs r.ints).filter (fun g => decide (g.2.length < n))).map (·.1)).contains row.triple)) = [] := by
+        rw [List.filter_eq_nil_iff]
+        intro row hrow
+        rw [(hspec g hg).2 row hrow]
+        simp only [Bool.not_eq_true', Bool.not_eq_false, List.contains_eq_mem, decide_eq_true_eq]
+        exact (hdropmem g hg).mpr hl
+      rw [if_pos hl, h1, List.filter_nil]
+    · have h1 : g.2.filter (fun row => !((((runs r.ints).filter (fun g => decide (g.2.length < n))).map (·.1)).contains row.triple)) = g.2 := by
+        rw [List.filter_eq_self]
+        intro row hrow
+        rw [(hspec g hg).2 row hrow]
+        simp only [Bool.not_eq_true', List.contains_eq_mem, decide_eq_false_iff_not]
+        exact fun hc => hl ((hdropmem g hg).mp hc)
+      rw [if_neg hl, h1, filter_idx_take _ _ (hw g hg)]
+  have hT : ∀ t, t ∈ ((runs r.ints).filter (fun g => !decide (g.2.length < n))).map (·.1) ↔
+      ∃ row ∈ globalNIntsS r.ints (.k n), row.triple = t := by
+    intro t
+    unfold globalNIntsS
+    simp only [List.mem_map, List.mem_filter, List.mem_flatMap, Bool.not_eq_true', decide_eq_false_iff_not]
+    constructor
+    · rintro ⟨g, ⟨hg, hl⟩, rfl⟩
+      obtain ⟨row, hrow⟩ := List.exists_mem_of_ne_nil _ (show g.2.take n ≠ [] by
+        have := (hspec g hg).1
+        cases hgl : g.2 with
+        | nil => exact absurd hgl this
+        | cons a as => cases n with
+          | zero => omega
+          | succ n => simp)
+      exact ⟨row, ⟨g, hg, by rw [if_neg hl]; exact hrow⟩, (hspec g hg).2 row (List.mem_of_mem_take hrow)⟩
+    · rintro ⟨row, ⟨g, hg, hrow⟩, rfl⟩
+      by_cases hl : g.2.length < n
+      · rw [if_pos hl] at hrow; simp at hrow
+      · rw [if_neg hl] at hrow
+        exact ⟨g, ⟨hg, hl⟩, ((hspec g hg).2 row (List.mem_of_mem_take hrow)).symm⟩
+  have hsubT : ∀ t ∈ ((runs r.ints).filter (fun g => !decide (g.2.length < n))).map (·.1), ∃ row ∈ r.ints, row.triple = t := by
+    intro t ht
+    obtain ⟨g, hg, rfl⟩ := List.mem_map.mp ht
+    exact mem_runs_triple _ g (List.mem_filter.mp hg).1
+  unfold globalN
+  simp only
+  rw [hrm]
+  simp only
+  rw [hints]
+  by_cases hemp : (((runs r.ints).filter (fun g => decide (g.2.length < n))).map (·.1)).isEmpty = true
+  · simp only [hemp, Bool.not_true, filterTableIf, Bool.false_eq_true, if_false]
+    -- nothing dropped: every parameter row is still referenced
+    have hkeepall : ∀ row ∈ r.ints, ∃ row' ∈ globalNIntsS r.ints (.k n), row'.triple = row.triple := by
+      intro row hrow
+      have := row_triple_mem_runs _ row hrow
+      obtain ⟨g, hg, hgt⟩ := List.mem_map.mp this
+      have hl : ¬ g.2.length < n := by
+        intro hl
+        have := (hdropmem g hg).mpr hl
+        rw [List.isEmpty_iff] at hemp
+        rw [hemp] at this
+        simp at this
+      exact (hT row.triple).mp (List.mem_map.mpr ⟨g, List.mem_filter.mpr ⟨hg, by simpa using hl⟩, hgt⟩)
+    unfold restrictTables
+    congr 2
+    · apply filter_referenced_self
+      intro p hp
+      obtain ⟨row, hrow, he⟩ := hall.1 p hp
+      obtain ⟨row', hrow', ht⟩ := hkeepall row hrow
+      exact List.mem_map.mpr ⟨row', hrow', by rw [← he]; exact congrArg (·.1) ht⟩
+    · apply filter_referenced_self
+      intro p hp
+      obtain ⟨row, hrow, he⟩ := hall.2.1 p hp
+      obtain ⟨row', hrow', ht⟩ := hkeepall row hrow
+      exact List.mem_map.mpr ⟨row', hrow', by rw [← he]; exact congrArg (·.2.1) ht⟩
+    · apply filter_referenced_self
+      intro p hp
+      obtain ⟨row, hrow, he⟩ := hall.2.2 p hp
+      obtain ⟨row', hrow', ht⟩ := hkeepall row hrow
+      exact List.mem_map.mpr ⟨row', hrow', by rw [← he]; exact congrArg (·.2.2) ht⟩
+  · have hne : (!(((runs r.ints).filter (fun g => decide (g.2.length < n))).map (·.1)).isEmpty) = true := by
+      simpa using hemp
+    simp only [hne, filterTableIf, if_true]
+    rw [filterTable_kept r.envs hu.1 _ (·.1) _ (fun t ht => by
+          obtain ⟨row, hrow, rfl⟩ := hsubT t ht
+          obtain ⟨p, hp, hpid⟩ := (hrefs row hrow).1; exact ⟨p, hp, hpid⟩) hT,
+      filterTable_kept r.lrns hu.2.1 _ (·.2.1) _ (fun t ht => by
+          obtain ⟨row, hrow, rfl⟩ := hsubT t ht
+          obtain ⟨p, hp, hpid⟩ := (hrefs row hrow).2.1; exact ⟨p, hp, hpid⟩) hT,
+      filterTable_kept r.evals hu.2.2 _ (·.2.2) _ (fun t ht => by
+          obtain ⟨row, hrow, rfl⟩ := hsubT t ht
+          obtain ⟨p, hp, hpid⟩ := (hrefs row hrow).2.2; exact ⟨p, hp, hpid⟩) hT]
+    rfl
+
+
+theorem globalN_min_eq (r : Result) (hw : IdxWF r.ints) (hall : AllReferenced r) :
+    globalN r .min = .ok (restrictTables r (globalNIntsS r.ints .min)) := by
+  have hspec := runs_spec r.ints
+  unfold globalN globalNIntsS
+  simp only
+  cases hlen : (runs r.ints).map (fun g => g.2.length) with
+  | nil =>
+    simp only
+    have hruns : runs r.ints = [] := by simpa using hlen
+    have hints : r.ints = [] := by rw [← runs_flatMap r.ints, hruns]; rfl
+    have he : r.envs = [] := by
+      cases h : r.envs with
+      | nil => rfl
+      | cons p ps =>
+        obtain ⟨row, hrow, _⟩ := hall.1 p (by simp [h])
+        rw [hints] at hrow; simp at hrow
+    have hl : r.lrns = [] := by
+      cases h : r.lrns with
+      | nil => rfl
+      | cons p ps =>
+        obtain ⟨row, hrow, _⟩ := hall.2.1 p (by simp [h])
+        rw [hints] at hrow; simp at hrow
+    have hv : r.evals = [] := by
+      cases h : r.evals with
+      | nil => rfl
+      | cons p ps =>
+        obtain ⟨row, hrow, _⟩ := hall.2.2 p (by simp [h])
+        rw [hints] at hrow; simp at hrow
+    congr 1
+    cases r
+    simp only at hints he hl hv
+    subst hints he hl hv
+    rfl
+  | cons m ms =>
+    simp only
+    have hmin1 : 1 ≤ minOf m ms := by
+      apply le_minOf
+      · have : m ∈ (runs r.ints).map (fun g => g.2.length) := by rw [hlen]; simp
+        obtain ⟨g, hg, rfl⟩ := List.mem_map.mp this
+        have := (hspec g hg).1
+        cases hgl : g.2 with
+        | nil => exact absurd hgl this
+        | cons a as => simp
+      · intro x hx
+        have : x ∈ (runs r.ints).map (fun g => g.2.length) := by rw [hlen]; simp [hx]
+        obtain ⟨g, hg, rfl⟩ := List.mem_map.mp this
+        have := (hspec g hg).1
+        cases hgl : g.2 with
+        | nil => exact absurd hgl this
+        | cons a as => simp
+    have hints : r.ints.filter (fun row => decide (row.idx ≤ minOf m ms)) =
+        (runs r.ints).flatMap (fun g => g.2.take (minOf m ms)) := by
+      rw [filter_runs]
+      apply List.flatMap_congr
+      intro g hg
+      exact filter_idx_take _ _ (hw g hg)
+    rw [hints]
+    have hkeepall : ∀ row ∈ r.ints, ∃ row' ∈ (runs r.ints).flatMap (fun g => g.2.take (minOf m ms)), row'.triple = row.triple := by
+      intro row hrow
+      have := row_triple_mem_runs _ row hrow
+      obtain ⟨g, hg, hgt⟩ := List.mem_map.mp this
+      obtain ⟨row', hrow'⟩ := List.exists_mem_of_ne_nil _ (show g.2.take (minOf m ms) ≠ [] by
+        have := (hspec g hg).1
+        cases hgl : g.2 with
+        | nil => exact absurd hgl this
+        | cons a as =>
+          obtain ⟨k, hk⟩ : ∃ k, minOf m ms = k + 1 := ⟨minOf m ms - 1, by omega⟩
+          rw [hk]; simp)
+      exact ⟨row', List.mem_flatMap.mpr ⟨g, hg, hrow'⟩, by
+        rw [(hspec g hg).2 row' (List.mem_of_mem_take hrow'), hgt]⟩
+    unfold restrictTables
+    congr 2
+    · apply filter_referenced_self
+      intro p hp
+      obtain ⟨row, hrow, he⟩ := hall.1 p hp
+      obtain ⟨row', hrow', ht⟩ := hkeepall row hrow
+      exact List.mem_map.mpr ⟨row', hrow', by rw [← he]; exact congrArg (·.1) ht⟩
+    · apply filter_referenced_self
+      intro p hp
+      obtain ⟨row, hrow, he⟩ := hall.2.1 p hp
+      obtain ⟨row', hrow', ht⟩ := hkeepall row hrow
+      exact List.mem_map.mpr ⟨row', hrow', by rw [← he]; exact congrArg (·.2.1) ht⟩
+    · apply filter_referenced_self
+      intro p hp
+      obtain ⟨row, hrow, he⟩ := hall.2.2 p hp
+      obtain ⟨row', hrow', ht⟩ := hkeepall row hrow
+      exact List.mem_map.mpr ⟨row', hrow', by rw [← he]; exact congrArg (·.2.2) ht⟩
+
+/-- after `n='min'` every surviving evaluation has exactly the minimal length -/
+theorem min_equal_lengths (ints : List IRow) (m : Nat) (ms : List Nat)
+    (h : (runs ints).map (fun g => g.2.length) = m :: ms) :
+    ∀ g ∈ runs ints, (g.2.take (minOf m ms)).length = minOf m ms := by
+  intro g hg
+  have : g.2.length ∈ m :: ms := by rw [← h]; exact List.mem_map.mpr ⟨g, hg, rfl⟩
+  rw [List.length_take]
+  rcases List.mem_cons.mp this with h1 | h1
+  · have := minOf_le_left m ms; omega
+  · have := minOf_le_mem m ms _ h1; omega
+
+
+
+
+/-- dropping whole evaluations from a sorted table drops whole runs -/
+theorem runs_filter (Q : Triple → Bool) (l : List IRow) (hs : SortedIds l) :
+    runs (l.filter (fun row => Q row.triple)) = (runs l).filter (fun g => Q g.1) := by
+  induction l with
+  | nil => simp [runs]
+  | cons r rs ih =>
+    have hs' := List.pairwise_cons.mp hs
+    have ih' := ih hs'.2
+    have hsorted := runs_sorted (r :: rs) hs
+    rw [List.filter_cons]
+    by_cases hq : Q r.triple = true
+    · rw [if_pos hq]
+      simp only [runs] at hsorted ⊢
+      rw [ih']
+      cases hruns : runs rs with
+      | nil => simp [hq]
+      | cons g rest =>
+        obtain ⟨t, gl⟩ := g
+        rw [hruns] at hsorted
+        simp only at hsorted ⊢
+        by_cases ht : t = r.triple
+        · subst ht
+          simp [List.filter_cons, hq]
+        · rw [if_neg ht] at hsorted ⊢
+          simp only [List.map_cons, List.pairwise_cons] at hsorted
+          rw [List.filter_cons (x := (r.triple, [r]))]
+          simp only [hq, if_true]
+          cases hf : List.filter (fun g => Q g.1) ((t, gl) :: rest) with
+          | nil => rfl
+          | cons g' rest' =>
+            obtain ⟨t', gl'⟩ := g'
+            simp only
+            have hmem : (t', gl') ∈ (t, gl) :: rest := by
+              have : (t', gl') ∈ List.filter (fun g => Q g.1) ((t, gl) :: rest) := by rw [hf]; simp
+              exact (List.mem_filter.mp this).1
+            have hlt : tlt r.triple t' = true := hsorted.1 t' (by
+              have : t' ∈ List.map (fun x => x.1) ((t, gl) :: rest) := List.mem_map.mpr ⟨(t', gl'), hmem, rfl⟩
+              simpa using this)
+            have hne : ¬ t' = r.triple := by
+              intro hc; rw [hc] at hlt; exact tlt_irrefl _ hlt
+            rw [if_neg hne]
+    · rw [if_neg hq, ih']
+      simp only [runs]
+      cases hruns : runs rs with
+      | nil => simp [hq]
+      | cons g rest =>
+        obtain ⟨t, gl⟩ := g
+        simp only
+        by_cases ht : t = r.triple
+        · subst ht
+          simp [List.filter_cons, hq]
+        · rw [if_neg ht]
+          rw [List.filter_cons (x := (r.triple, [r]))]
+          simp [hq]
+
+
+theorem restrict_refsPresent (r : Result) (ints : List IRow) (hsub : ∀ row ∈ ints, row ∈ r.ints) (hrefs : RefsPresent r) :
+    RefsPresent (restrictTables r ints) := by
+  intro row hrow
+  simp only [restrictTables] at hrow ⊢
+  obtain ⟨⟨pe, hpe, he⟩, ⟨pl, hpl, hl⟩, ⟨pv, hpv, hv⟩⟩ := hrefs row (hsub row hrow)
+  refine ⟨⟨pe, ?_, he⟩, ⟨pl, ?_, hl⟩, ⟨pv, ?_, hv⟩⟩
+  · rw [List.mem_filter]; exact ⟨hpe, by simp only [List.contains_eq_mem, decide_eq_true_eq]; exact List.mem_map.mpr ⟨row, hrow, he.symm⟩⟩
+  · rw [List.mem_filter]; exact ⟨hpl, by simp only [List.contains_eq_mem, decide_eq_true_eq]; exact List.mem_map.mpr ⟨row, hrow, hl.symm⟩⟩
+  · rw [List.mem_filter]; exact ⟨hpv, by simp only [List.contains_eq_mem, decide_eq_true_eq]; exact List.mem_map.mpr ⟨row, hrow, hv.symm⟩⟩
+
+theorem restrict_allReferenced (r : Result) (ints : List IRow) : AllReferenced (restrictTables r ints) := by
+  refine ⟨?_, ?_, ?_⟩ <;>
+  · intro p hp
+    simp only [restrictTables, List.mem_filter, List.contains_eq_mem, decide_eq_true_eq, List.mem_map] at hp ⊢
+    obtain ⟨_, row, hrow, h⟩ := hp
+    exact ⟨row, hrow, h⟩
+
+theorem restrict_uniqueIds (r : Result) (ints : List IRow) (hu : UniqueIds r) : UniqueIds (restrictTables r ints) := by
+  refine ⟨?_, ?_, ?_⟩
+  · exact (List.filter_sublist.map _).nodup hu.1
+  · exact (List.filter_sublist.map _).nodup hu.2.1
+  · exact (List.filter_sublist.map _).nodup hu.2.2
+
+theorem contains_and (ints1 ints2 : List IRow) (f : IRow → Nat) (hsub : ∀ row ∈ ints2, row ∈ ints1) (x : Nat) :
+    ((ints2.map f).contains x && (ints1.map f).contains x) = (ints2.map f).contains x := by
+  by_cases h2 : x ∈ ints2.map f
+  · have h1 : x ∈ ints1.map f := by
+      obtain ⟨row, hrow, h⟩ := List.mem_map.mp h2
+      exact List.mem_map.mpr ⟨row, hsub row hrow, h⟩
+    simp [h1, h2]
+  · simp [h2]
+
+theorem restrict_restrict (r : Result) (ints1 ints2 : List IRow) (hsub : ∀ row ∈ ints2, row ∈ ints1) :
+    restrictTables (restrictTables r ints1) ints2 = restrictTables r ints2 := by
+  simp only [restrictTables, List.filter_filter]
+  congr 1 <;>
+  · apply List.filter_congr
+    intro p _
+    exact contains_and ints1 ints2 _ hsub p.id
+
+theorem restrict_self (r : Result) (hall : AllReferenced r) : restrictTables r r.ints = r := by
+  cases r with
+  | mk envs lrns evals ints =>
+    simp only [restrictTables]
+    congr 1
+    · exact (filter_referenced_self envs _ (fun p hp => by
+        obtain ⟨row, hrow, h⟩ := hall.1 p hp; exact List.mem_map.mpr ⟨row, hrow, h⟩)).symm
+    · exact (filter_referenced_self lrns _ (fun p hp => by
+        obtain ⟨row, hrow, h⟩ := hall.2.1 p hp; exact List.mem_map.mpr ⟨row, hrow, h⟩)).symm
+    · exact (filter_referenced_self evals _ (fun p hp => by
+        obtain ⟨row, hrow, h⟩ := hall.2.2 p hp; exact List.mem_map.mpr ⟨row, hrow, h⟩)).symm
+
+theorem mem_globalNIntsS (ints : List IRow) (n : NSpec) : ∀ row ∈ globalNIntsS ints n, row ∈ ints := by
+  intro row hrow
+  have hmem : ∀ g ∈ runs ints, ∀ x ∈ g.2, x ∈ ints := by
+    intro g hg x hx
+    rw [← runs_flatMap ints]
+    exact List.mem_flatMap.mpr ⟨g, hg, hx⟩
+  unfold globalNIntsS at hrow
+  cases n with
+  | min =>
+    simp only at hrow
+    cases hl : (runs ints).map (fun g => g.2.length) with
+    | nil => rw [hl] at hrow; exact hrow
+    | cons m ms =>
+      rw [hl] at hrow
+      simp only [List.mem_flatMap] at hrow
+      obtain ⟨g, hg, hx⟩ := hrow
+      exact hmem g hg row (List.mem_of_mem_take hx)
+  | k n =>
+    simp only [List.mem_flatMap] at hrow
+    obtain ⟨g, hg, hx⟩ := hrow
+    split at hx
+    · simp at hx
+    · exact hmem g hg row (List.mem_of_mem_take hx)
+
+theorem refsPresent_of_indexes (r : Result) (lc pc : List Col) (ix : List Idx)
+    (hix : mkIndexes r lc pc ((runs r.ints).map (·.1)) = .ok ix) : RefsPresent r := by
+  intro row hrow
+  have := (mkIndexes_spec r lc pc _ ix hix).2 row.triple (row_triple_mem_runs _ row hrow)
+  exact this
+
+/-- `where_fin` (with the repaired pairing rule) is its specification -/
+theorem filterFin_eq_spec (r : Result) (n : Option NSpec) (lp : Option (List Col × List Col))
+    (hs : SortedIds r.ints) (hu : UniqueIds r) (hw : IdxWF r.ints) (hrefs : RefsPresent r)
+    (hall : lp = none → AllReferenced r) :
+    filterFin true r n lp = whereFinS r n lp := by
+  unfold filterFin whereFinS
+  cases lp with
+  | none =>
+    simp only
+    have hall := hall rfl
+    cases n with
+    | none => simp only; rw [restrict_self r hall]
+    | some n =>
+      cases n with
+      | min => simp only; exact globalN_min_eq r hw hall
+      | k n =>
+        cases n with
+        | zero => simp only; rw [restrict_self r hall]
+        | succ n => simp only; exact globalN_k_eq r (n + 1) (by omega) hs hu hw hrefs hall
+  | some lp =>
+    obtain ⟨lc, pc⟩ := lp
+    simp only
+    cases hix : mkIndexes r lc pc ((runs r.ints).map (·.1)) with
+    | error x =>
+      simp only [groupP, hix]
+    | ok ix =>
+      rw [groupP_eq r lc pc ix hs hu hix]
+      simp only
+      have hsub : ∀ row ∈ groupPIntsS r.ints ix, row ∈ r.ints := fun row h => (List.mem_filter.mp h).1
+      have hs1 : SortedIds (restrictTables r (groupPIntsS r.ints ix)).ints := hs.filter _
+      have hu1 := restrict_uniqueIds r (groupPIntsS r.ints ix) hu
+      have hr1 := restrict_refsPresent r _ hsub hrefs
+      have ha1 := restrict_allReferenced r (groupPIntsS r.ints ix)
+      have hw1 : IdxWF (restrictTables r (groupPIntsS r.ints ix)).ints := by
+        intro g hg
+        simp only [restrictTables, groupPIntsS] at hg
+        rw [runs_filter (fun t => (keptTriplesS ix).contains t) r.ints hs] at hg
+        exact hw g (List.mem_filter.mp hg).1
+      cases n with
+      | none => rfl
+      | some n =>
+        cases n with
+        | min =>
+          simp only
+          rw [globalN_min_eq _ hw1 ha1]
+          congr 1
+          exact restrict_restrict r _ _ (mem_globalNIntsS _ _)
+        | k n =>
+          cases n with
+          | zero => rfl
+          | succ n =>
+            simp only
+            rw [globalN_k_eq _ (n + 1) (by omega) hs1 hu1 hw1 hr1 ha1]
+            congr 1
+            exact restrict_restrict r _ _ (mem_globalNIntsS _ _)
+
+
+theorem flatMap_sublist {α β} (l : List α) (f g : α → List β) (h : ∀ a, (f a).Sublist (g a)) :
+    (l.flatMap f).Sublist (l.flatMap g) := by
+  induction l with
+  | nil => simp
+  | cons a as ih => simp only [List.flatMap_cons]; exact (h a).append ih
+
+theorem globalNIntsS_sublist (ints : List IRow) (n : NSpec) : (globalNIntsS ints n).Sublist ints := by
+  unfold globalNIntsS
+  cases n with
+  | min =>
+    simp only
+    cases (runs ints).map (fun g => g.2.length) with
+    | nil => exact List.Sublist.refl _
+    | cons m ms =>
+      simp only
+      conv_rhs => rw [← runs_flatMap ints]
+      exact flatMap_sublist _ _ _ (fun g => List.take_sublist _ _)
+  | k n =>
+    simp only
+    conv_rhs => rw [← runs_flatMap ints]
+    apply flatMap_sublist
+    intro g
+    split
+    · exact List.nil_sublist _
+    · exact List.take_sublist _ _
+
+/-- whatever `where_fin` must return is the input with some interaction rows left out (none altered) and
+the parameter rows restricted to the ones still referenced -/
+theorem whereFinS_form (r r' : Result) (n : Option NSpec) (lp : Option (List Col × List Col))
+    (h : whereFinS r n lp = .ok r') : ∃ ints', ints'.Sublist r.ints ∧ r' = restrictTables r ints' := by
+  unfold whereFinS at h
+  have key : ∀ ints1 : List IRow, ints1.Sublist r.ints →
+      (match n with
+        | none => (Except.ok (restrictTables r ints1) : Except Err Result)
+        | some (.k 0) => .ok (restrictTables r ints1)
+        | some n => .ok (restrictTables r (globalNIntsS ints1 n))) = .ok r' →
+      ∃ ints', ints'.Sublist r.ints ∧ r' = restrictTables r ints' := by
+    intro ints1 hsub h
+    split at h
+    · cases h; exact ⟨ints1, hsub, rfl⟩
+    · cases h; exact ⟨ints1, hsub, rfl⟩
+    · cases h; exact ⟨_, (globalNIntsS_sublist _ _).trans hsub, rfl⟩
+  cases lp with
+  | none => exact key r.ints (List.Sublist.refl _) h
+  | some lp =>
+    obtain ⟨lc, pc⟩ := lp
+    simp only at h
+    cases hix : mkIndexes r lc pc ((runs r.ints).map (·.1)) with
+    | error x => rw [hix] at h; simp at h
+    | ok ix =>
+      rw [hix] at h
+      exact key (groupPIntsS r.ints ix) List.filter_sublist h
+
+/-- the repaired and the unchanged `_group_p` agree whenever no level occurs twice inside a `p`-group -/
+theorem groupP_legacy_eq (r : Result) (lc pc : List Col)
+    (hnd : ∀ ix, mkIndexes r lc pc ((runs r.ints).map (·.1)) = .ok ix → ∀ g ∈ groupsOf ix, (g.map (·.l)).Nodup) :
+    groupP false r lc pc = groupP true r lc pc := by
+  unfold groupP
+  cases hix : mkIndexes r lc pc ((runs r.ints).map (·.1)) with
+  | error x => rfl
+  | ok ix =>
+    simp only
+    have hk : ∀ g ∈ groupsOf ix, groupKeep false (dedup (ix.map (·.l))).length g = groupKeep true (dedup (ix.map (·.l))).length g := by
+      intro g hg
+      have hsub : ∀ i ∈ g, i.l ∈ dedup (ix.map (·.l)) := by
+        intro i hi
+        simp only [groupsOf, List.mem_map] at hg
+        obtain ⟨k, _, rfl⟩ := hg
+        rw [mem_dedup]
+        exact List.mem_map.mpr ⟨i, (List.mem_filter.mp hi).1, rfl⟩
+      have h1 := groupKeep_legacy_iff _ (nodup_dedup (ix.map (·.l))) g hsub (hnd ix hix g hg)
+      have h2 := groupKeep_fixed_iff _ (nodup_dedup (ix.map (·.l))) g hsub
+      cases ha : groupKeep false (dedup (ix.map (·.l))).length g <;>
+        cases hb : groupKeep true (dedup (ix.map (·.l))).length g
+      · rfl
+      · exact absurd (h1.mpr (h2.mp hb)) (by simp [ha])
+      · exact absurd (h2.mpr (h1.mp ha)) (by simp [hb])
+      · rfl
+    rw [List.filter_congr (fun g hg => hk g hg),
+      List.filter_congr (fun g hg => by rw [hk g hg] : ∀ g ∈ groupsOf ix,
+        (!groupKeep false (dedup (ix.map (·.l))).length g) = (!groupKeep true (dedup (ix.map (·.l))).length g))]
+
+/-! rows are never invented: unconditional, for both variants -/
+
+theorem mem_selectRows {α} (rows : List α) (sel : List Nat) : ∀ x ∈ selectRows rows sel, x ∈ rows := by
+  intro x hx
+  simp only [selectRows, List.mem_filterMap] at hx
+  obtain ⟨i, _, hi⟩ := hx
+  exact List.mem_of_getElem? hi
+
+theorem mem_removeRows (rows out : List IRow) (ids : List Triple) (cut : Nat) (h : removeRows rows ids cut = .ok out) :
+    ∀ x ∈ out, x ∈ rows := by
+  unfold removeRows at h
+  split at h
+  · cases h; exact fun x hx => hx
+  · cases hr : remove (rows.map IRow.triple) ids cut with
+    | error e => rw [hr] at h; simp at h
+    | ok sel =>
+      rw [hr] at h
+      simp only [Except.ok.injEq] at h
+      subst h
+      exact mem_selectRows rows sel
+
+theorem mem_filterTable (rows : List PRow) (keep : List Nat) : ∀ p ∈ filterTable rows keep, p ∈ rows := by
+  intro p hp
+  unfold filterTable at hp
+  split at hp
+  · exact (List.mem_filter.mp hp).1
+  · exact hp
+
+theorem groupP_rows (fixed : Bool) (r r' : Result) (lc pc : List Col) (h : groupP fixed r lc pc = .ok r') :
+    (∀ x ∈ r'.ints, x ∈ r.ints) ∧ (∀ p ∈ r'.envs, p ∈ r.envs) ∧ (∀ p ∈ r'.lrns, p ∈ r.lrns) ∧ (∀ p ∈ r'.evals, p ∈ r.evals) := by
+  unfold groupP at h
+  cases hix : mkIndexes r lc pc ((runs r.ints).map (·.1)) with
+  | error x => rw [hix] at h; simp at h
+  | ok ix =>
+    rw [hix] at h
+    simp only at h
+    split at h
+    · simp at h
+    · rename_i ints hrm
+      simp only [Except.ok.injEq] at h
+      subst h
+      exact ⟨mem_removeRows _ _ _ _ hrm, mem_filterTable _ _, mem_filterTable _ _, mem_filterTable _ _⟩
+
+theorem globalN_rows (r r' : Result) (n : NSpec) (h : globalN r n = .ok r') :
+    (∀ x ∈ r'.ints, x ∈ r.ints) ∧ (∀ p ∈ r'.envs, p ∈ r.envs) ∧ (∀ p ∈ r'.lrns, p ∈ r.lrns) ∧ (∀ p ∈ r'.evals, p ∈ r.evals) := by
+  unfold globalN at h
+  cases n with
+  | min =>
+    simp only at h
+    split at h
+    · cases h; exact ⟨fun x hx => hx, fun x hx => hx, fun x hx => hx, fun x hx => hx⟩
+    · cases h
+      exact ⟨fun x hx => (List.mem_filter.mp hx).1, fun x hx => hx, fun x hx => hx, fun x hx => hx⟩
+  | k n =>
+    simp only at h
+    split at h
+    · simp at h
+    · rename_i ints hrm
+      simp only [Except.ok.injEq] at h
+      subst h
+      have hft : ∀ (c : Bool) (rows : List PRow) (keep : List Nat), ∀ p ∈ filterTableIf c rows keep, p ∈ rows := by
+        intro c rows keep p hp
+        unfold filterTableIf at hp
+        split at hp
+        · exact mem_filterTable _ _ p hp
+        · exact hp
+      exact ⟨fun x hx => mem_removeRows _ _ _ _ hrm x (List.mem_filter.mp hx).1, hft _ _ _, hft _ _ _, hft _ _ _⟩
+
+/-- `where_fin` never alters or invents a row (any input, with or without the repair) -/
+theorem filterFin_rows (fixed : Bool) (r r' : Result) (n : Option NSpec) (lp : Option (List Col × List Col))
+    (h : filterFin fixed r n lp = .ok r') :
+    (∀ x ∈ r'.ints, x ∈ r.ints) ∧ (∀ p ∈ r'.envs, p ∈ r.envs) ∧ (∀ p ∈ r'.lrns, p ∈ r.lrns) ∧ (∀ p ∈ r'.evals, p ∈ r.evals) := by
+  unfold filterFin at h
+  have key : ∀ r1 : Result,
+      ((∀ x ∈ r1.ints, x ∈ r.ints) ∧ (∀ p ∈ r1.envs, p ∈ r.envs) ∧ (∀ p ∈ r1.lrns, p ∈ r.lrns) ∧ (∀ p ∈ r1.evals, p ∈ r.evals)) →
+      (match n with
+        | none => (Except.ok r1 : Except Err Result)
+        | some (.k 0) => .ok r1
+        | some n => globalN r1 n) = .ok r' →
+      ((∀ x ∈ r'.ints, x ∈ r.ints) ∧ (∀ p ∈ r'.envs, p ∈ r.envs) ∧ (∀ p ∈ r'.lrns, p ∈ r.lrns) ∧ (∀ p ∈ r'.evals, p ∈ r.evals)) := by
+    intro r1 h1 h
+    split at h
+    · cases h; exact h1
+    · cases h; exact h1
+    · have h2 := globalN_rows r1 r' _ h
+      exact ⟨fun x hx => h1.1 x (h2.1 x hx), fun x hx => h1.2.1 x (h2.2.1 x hx),
+        fun x hx => h1.2.2.1 x (h2.2.2.1 x hx), fun x hx => h1.2.2.2 x (h2.2.2.2 x hx)⟩
+  cases lp with
+  | none => exact key r ⟨fun x hx => hx, fun x hx => hx, fun x hx => hx, fun x hx => hx⟩ h
+  | some lp =>
+    obtain ⟨lc, pc⟩ := lp
+    simp only at h
+    cases hg : groupP fixed r lc pc with
+    | error x => rw [hg] at h; simp at h
+    | ok r1 =>
+      rw [hg] at h
+      exact key r1 (groupP_rows fixed r r1 lc pc hg) h
+
+
+
+/-! ## Part 5: `_grouped_ys`, `raw_learners` -/
+
+
+/-! `_grouped_ys` -/
+
+section grouping
+variable {κ : Type} [DecidableEq κ]
+
+theorem dedup_snoc {α : Type} [DecidableEq α] (l : List α) (x : α) :
+    dedup (l ++ [x]) = if x ∈ l then dedup l else dedup l ++ [x] := by
+  induction l with
+  | nil => simp [dedup]
+  | cons y ys ih =>
+    simp only [List.cons_append, dedup, ih]
+    by_cases hx : x ∈ ys
+    · simp [hx]
+    · simp only [hx, if_false, List.filter_append, List.mem_cons]
+      by_cases hxy : x = y
+      · subst hxy
+        simp
+      · have : ¬ (x = y ∨ x ∈ ys) := by tauto
+        simp [hxy, this]
+
+end grouping
+
+abbrev KK := Key × Key
+
+theorem insertG_map (ks : List KK) (hnd : ks.Nodup) (F : KK → List Rat) (k : KK) (v : Rat) :
+    insertG (ks.map (fun k' => (k', F k'))) k v =
+      if k ∈ ks then ks.map (fun k' => (k', if k' = k then F k' ++ [v] else F k'))
+      else ks.map (fun k' => (k', F k')) ++ [(k, [v])] := by
+  induction ks with
+  | nil => simp [insertG]
+  | cons a as ih =>
+    have hnd' := List.nodup_cons.mp hnd
+    simp only [List.map_cons, insertG]
+    by_cases ha : a = k
+    · subst ha
+      simp only [if_true, List.mem_cons, true_or]
+      congr 1
+      apply List.map_congr_left
+      intro k' hk'
+      have : ¬ k' = a := fun hc => hnd'.1 (hc ▸ hk')
+      simp [this]
+    · rw [if_neg ha, ih hnd'.2]
+      have hka : ¬ k = a := fun hc => ha hc.symm
+      by_cases hk : k ∈ as
+      · simp [hk, ha]
+      · simp [hk, hka, ha]
+
+theorem groupByKey_snoc (pre : List (KK × Rat)) (k : KK) (v : Rat) :
+    insertG (groupByKey pre) k v = groupByKey (pre ++ [(k, v)]) := by
+  unfold groupByKey
+  rw [insertG_map _ (nodup_dedup _) (fun k' => (pre.filter (fun e => e.1 = k')).map (·.2))]
+  simp only [List.map_append, List.map_cons, List.map_nil]
+  rw [dedup_snoc]
+  by_cases hk : k ∈ pre.map (·.1)
+  · have hk' : k ∈ dedup (pre.map (·.1)) := (mem_dedup _ _).mpr hk
+    rw [if_pos hk', if_pos hk]
+    apply List.map_congr_left
+    intro k' _
+    congr 1
+    by_cases hkk : k' = k
+    · subst hkk
+      simp [List.filter_append]
+    · have : ¬ k = k' := fun hc => hkk hc.symm
+      simp [List.filter_append, hkk, this]
+  · have hk' : ¬ k ∈ dedup (pre.map (·.1)) := fun hc => hk ((mem_dedup _ _).mp hc)
+    rw [if_neg hk', if_neg hk, List.map_append]
+    congr 1
+    · apply List.map_congr_left
+      intro k' hk2
+      have hne : ¬ k = k' := fun hc => hk' (hc ▸ hk2)
+      simp [List.filter_append, hne]
+    · have hnone : pre.filter (fun e => decide (e.1 = k)) = [] := by
+        rw [List.filter_eq_nil_iff]
+        intro e he
+        simp only [decide_eq_true_eq]
+        intro hc
+        exact hk (List.mem_map.mpr ⟨e, he, hc⟩)
+      simp [List.filter_append, hnone]
+
+theorem insertAll_groupByKey (pre es : List (KK × Rat)) :
+    insertAll (groupByKey pre) es = groupByKey (pre ++ es) := by
+  induction es generalizing pre with
+  | nil => simp [insertAll]
+  | cons e es ih =>
+    obtain ⟨k, v⟩ := e
+    simp only [insertAll]
+    rw [groupByKey_snoc, ih]
+    simp
+
+theorem insertAll_nil (es : List (KK × Rat)) : insertAll [] es = groupByKey es := by
+  have := insertAll_groupByKey [] es
+  simpa [groupByKey, dedup] using this
+
+
+theorem meanL_single (y : Rat) : meanL [y] = .ok y := by
+  simp [meanL, divE, sumL]
+
+theorem finalValue_eq (ys : List Rat) (span : Option Nat) (hne : ys ≠ []) :
+    finalValue ys span = directFinal ys span := by
+  have hlen : 1 ≤ ys.length := by
+    cases ys with
+    | nil => exact absurd rfl hne
+    | cons a as => simp
+  have hwin : ∀ s, window (some s) (ys.length - 1) ys = ys.drop (ys.length - s) := by
+    intro s
+    simp only [window]
+    have : ys.length - 1 + 1 = ys.length := by omega
+    rw [this, List.take_length]
+  unfold finalValue directFinal
+  match span with
+  | none => rfl
+  | some 0 => rfl
+  | some 1 =>
+    simp only
+    rw [hwin 1, List.drop_length_sub_one hne, meanL_single, List.getLast?_eq_getLast hne]
+  | some (s + 2) =>
+    simp only
+    rw [hwin]
+
+theorem evalEntries_eq (r : Result) (lc : List Col) (x : XSpec) (span : Option Nat) (g : Triple × List IRow)
+    (hne : g.2 ≠ []) : evalEntries r lc x span g = evalEntriesS r lc x span g := by
+  unfold evalEntries evalEntriesS
+  have hys : g.2.map (fun row => toRat row.y) ≠ [] := by simpa using hne
+  simp only [movingAverage_none_eq, finalValue_eq _ _ hys]
+  rfl
+
+theorem allEntries_eq (r : Result) (lc : List Col) (x : XSpec) (span : Option Nat) (gs : List (Triple × List IRow))
+    (hne : ∀ g ∈ gs, g.2 ≠ []) : allEntries r lc x span gs = allEntriesS r lc x span gs := by
+  induction gs with
+  | nil => rfl
+  | cons g gs ih =>
+    simp only [allEntries, allEntriesS]
+    rw [evalEntries_eq r lc x span g (hne g (by simp)), ih (fun g' hg' => hne g' (by simp [hg']))]
+
+/-- `_grouped_ys` (the dict-of-lists accumulation over `moving_average`) reports exactly the directly
+computed averages, grouped by `(l, x)` -/
+theorem groupedYs_eq (r : Result) (lc : List Col) (x : XSpec) (span : Option Nat) :
+    groupedYs r lc x span = groupedYsS r lc x span := by
+  unfold groupedYs groupedYsS
+  rw [allEntries_eq r lc x span _ (fun g hg => (runs_spec r.ints g hg).1)]
+  cases allEntriesS r lc x span (runs r.ints) with
+  | error e => rfl
+  | ok es => simp only; rw [insertAll_nil]
+
+
+/-- `raw_learners` is its specification on well-formed results -/
+theorem rawLearners_eq_spec (r : Result) (x : XSpec) (lc : List Col) (pc : Option (List Col)) (span : Option Nat)
+    (hs : SortedIds r.ints) (hu : UniqueIds r) (hw : IdxWF r.ints) (hrefs : RefsPresent r) :
+    rawLearners true r x lc pc span = rawLearnersS r x lc pc span := by
+  unfold rawLearners rawLearnersS
+  split
+  · rfl
+  · cases pc with
+    | none => exact groupedYs_eq r lc x span
+    | some pc =>
+      simp only
+      rw [filterFin_eq_spec r _ (some (lc, pc)) hs hu hw hrefs (by intro h; cases h)]
+      cases whereFinS r (if x = .index then some .min else none) (some (lc, pc)) with
+      | error e => rfl
+      | ok fin =>
+        simp only
+        split
+        · rfl
+        · exact groupedYs_eq fin lc x span
+
+
+/-! ## primed statements referenced by `Props/C18.lean` -/
+
+theorem moving_average_eq_spec' (vs : List Rat) (span : Option Nat) (w : Weights) (out : List Rat)
+    (h : movingAverageS vs span w = .ok out) : movingAverage vs span w = .ok out := by
+  cases w with
+  | none => rw [movingAverage_none_eq]; exact h
+  | exp => rw [movingAverage_exp_eq]; exact h
+  | ws wl =>
+    by_cases h1 : span = some 1
+    · subst h1; exact movingAverage_ws_span1 vs wl out h
+    · rw [movingAverage_ws_eq vs wl span h1]; exact h
+
+theorem moving_average_eq_spec_full' (vs : List Rat) (span : Option Nat) (w : Weights)
+    (h : span ≠ some 1 ∨ w = .none ∨ w = .exp) : movingAverage vs span w = movingAverageS vs span w := by
+  cases w with
+  | none => exact movingAverage_none_eq vs span
+  | exp => exact movingAverage_exp_eq vs span
+  | ws wl =>
+    rcases h with h | h | h
+    · exact movingAverage_ws_eq vs wl span h
+    · cases h
+    · cases h
+
+theorem remove_eq_filter' (rows : List IRow) (ids : List Triple) (cut : Nat) (hs : SortedIds rows) (hnd : ids.Nodup)
+    (hpres : ∀ t ∈ ids, t ∈ rows.map IRow.triple)
+    (hcut : cut = 0 ∨ ∀ t ∈ ids, (rows.map IRow.triple).count t ≤ cut) :
+    ∃ sel, remove (rows.map IRow.triple) ids cut = .ok sel ∧
+      sel = (List.range rows.length).filter (fun i => (rows[i]?).any (fun r => !(ids.contains r.triple))) ∧
+      selectRows rows sel = rows.filter (fun r => !(ids.contains r.triple)) := by
+  refine ⟨_, remove_eq _ ids cut (sortedT_of_sortedIds _ hs) hnd hpres hcut, ?_, ?_⟩
+  · rw [List.length_map, keepIdx_rows]
+  · rw [List.length_map, keepIdx_rows]
+    exact selectRows_filter rows _
+
+theorem global_n_spec' (r : Result) (n : NSpec) (hn : n ≠ .k 0) (hs : SortedIds r.ints) (hu : UniqueIds r)
+    (hw : IdxWF r.ints) (hrefs : RefsPresent r) (hall : AllReferenced r) :
+    globalN r n = .ok (restrictTables r (globalNIntsS r.ints n)) := by
+  cases n with
+  | min => exact globalN_min_eq r hw hall
+  | k n =>
+    cases n with
+    | zero => exact absurd rfl hn
+    | succ n => exact globalN_k_eq r (n + 1) (by omega) hs hu hw hrefs hall
+
+theorem filter_fin_consistent' (r r' : Result) (n : Option NSpec) (lp : Option (List Col × List Col))
+    (hs : SortedIds r.ints) (hu : UniqueIds r) (hw : IdxWF r.ints) (hrefs : RefsPresent r)
+    (hall : lp = none → AllReferenced r) (h : filterFin true r n lp = .ok r') : Consistent r' := by
+  rw [filterFin_eq_spec r n lp hs hu hw hrefs hall] at h
+  obtain ⟨ints', hsub, rfl⟩ := whereFinS_form r r' n lp h
+  exact ⟨restrict_refsPresent r ints' (fun row hrow => hsub.subset hrow) hrefs, restrict_allReferenced r ints'⟩
+
+theorem filter_fin_sublist' (r r' : Result) (n : Option NSpec) (lp : Option (List Col × List Col))
+    (hs : SortedIds r.ints) (hu : UniqueIds r) (hw : IdxWF r.ints) (hrefs : RefsPresent r)
+    (hall : lp = none → AllReferenced r) (h : filterFin true r n lp = .ok r') :
+    r'.ints.Sublist r.ints ∧ r'.envs.Sublist r.envs ∧ r'.lrns.Sublist r.lrns ∧ r'.evals.Sublist r.evals := by
+  rw [filterFin_eq_spec r n lp hs hu hw hrefs hall] at h
+  obtain ⟨ints', hsub, rfl⟩ := whereFinS_form r r' n lp h
+  exact ⟨hsub, List.filter_sublist, List.filter_sublist, List.filter_sublist⟩
+
 end Coba.C18
